@@ -1,33 +1,75 @@
-"""C06 - meshes have value semantics: copy, merge and transforms never alias (structural clauses)."""
+"""C06 - meshes have value semantics: copy, merge and transforms never alias (structural clauses).
+
+The rules read the symbolic paths of copy / merge / the transforms (msa/rules/hd_sx.py: local names substituted, private helpers
+and lambdas expanded, table-driven loops unrolled, getattr/setattr with constant names read as attribute access) and state their
+obligations on the effects of each path.  A shape that is not understood is `undecided`; a violation names the recognised
+construct that shares storage / skips an element / departs from the requested map."""
 from __future__ import annotations
 import ast
+from fractions import Fraction
 from .. import au, sym
-from ..rules import alias
+from ..rules import alias, hd_sx
+from ..rules.hd_sx import SX, TooComplex, src, walk_events
 
 MESH = "mesh.mesh"
 TR = "geometry.transform"
 BASE = "mesh.datatypes.base"
+MD = "mesh.mesh_data"
+DC = "mesh.data_container"
 
 EXPLANATION = (
-    "Static ownership analysis of copy / merge / transforms: copy covers exactly the containers a mesh exposes and assigns "
-    "nothing of the source by reference; merge adds a fresh object per vertex and shifts every index kind by one running "
-    "offset advanced after its uses; every transform writes each vertex exactly once in one loop over all vertices with a "
-    "fresh right-hand side (no in-place update of a stored vector, which would move a vector stored under two ids twice); "
-    "normalisation composes the documented translate/scale arguments. Freshness follows a small grammar that depends on "
+    "Static ownership analysis of copy / merge / transforms on the symbolic paths of each function (helpers, lambdas and table-driven "
+    "loops expanded): on every path copy deep-copies exactly the containers a mesh exposes for the containers its source has and assigns "
+    "nothing of the source by reference; merge adds a fresh object per vertex and shifts every index kind of every input by one running "
+    "offset that starts at 0 and advances by the input's vertex count on every path of the loop; every transform rebinds each vertex "
+    "exactly once in a loop over all vertex ids with a fresh right-hand side (no in-place update of a stored vector, which would move a "
+    "vector stored under two ids twice) and never skips the motion for a non-trivial parameter; the stored value is the requested affine "
+    "map (polynomial identity); normalisation composes to the documented similarity. Freshness follows a small grammar that depends on "
     "whether Vec(x) is a view (re-derived from Vec.__new__ on every run). Structural necessary conditions only.")
 
 RULES = {
-    "C06-A4": "copy(): the copied container paths are exactly those Mesh.__init__ exposes, each deepcopy(mesh.<same path>); nothing of the source is assigned by reference",
-    "C06-A5": "merge(): the vertices added to the result are fresh objects; all index kinds are shifted by one running offset initialised to 0 and advanced by len(vertices) after its uses",
-    "C06-A6": "translate/rotate/scale/scale_xyz: one store per vertex in one unguarded loop over id_vertices, right-hand side fresh, no augmented assignment on a stored vector",
+    "C06-A4": "copy(): on every path each container Mesh.__init__ exposes (and the source has) is assigned deepcopy(source.<same path>) - whole containers with attributes, "
+              "their raw lists without; nothing of the source is assigned by reference; the connectivity is deep-copied with its back-reference re-pointed",
+    "C06-A5": "merge(): the vertices added to the result are fresh objects; every index kind an input has is appended shifted by one running offset that is 0 before the "
+              "loop and advanced by len(input.vertices), after its uses, on every path of the loop body",
+    "C06-A6": "translate/rotate/scale/scale_xyz (and every function of transform.py that writes vertices): one unconditional store per vertex in a loop over all vertex ids, "
+              "right-hand side fresh, no augmented assignment on / in-place update of a stored vector, no path that skips the motion for a non-trivial parameter",
     "C06-F1": "the value stored for a vertex is exactly the requested affine map of its old position: P + t, O + f (P - O), O + R(P - O), "
-              "O + diag(fx, fy, fz)(P - O) (polynomial identity over the atoms P, O, t, f)",
-    "C06-N1": "normalize(): centred variant = translate(-center) then scale(2/max span); anchored variant = translate(-mini) then scale(1/max span)",
+              "O + diag(fx, fy, fz)(P - O) (polynomial identity over the atoms P, O, t, f; R linear)",
+    "C06-N1": "normalize(): the composition of the maps it applies is P -> 2 (P - center) / max span (centred) resp. (P - mini) / max span (anchored)",
     "C06-V1": "fact: whether Vec(x) aliases x (np.asarray(...).view) - the freshness grammar is derived from it",
 }
 
-CONTAINERS = {"vertices": ("_data",), "edges": ("_data",), "faces": ("_data",), "face_corners": ("_elem", "_adj"),
-              "cells": ("_data",), "cell_corners": ("_elem", "_adj"), "cell_faces": ("_elem", "_adj")}
+P = sym.Poly
+TRANSFORMS = ["translate", "rotate", "scale", "scale_xyz"]
+ROLE_PARAMS = {"translate": 2, "rotate": 3, "scale": 3, "scale_xyz": 5, "normalize": 2}     # parameters that define the map (the following optional ones are extras)
+
+
+def _nondefault_path(p, fn, n_role):
+    """the path is only taken when an optional parameter added after the role parameters differs from its default: a new optional
+    keyword whose default keeps the behaviour is out of the scope of the rule"""
+    a = fn.args
+    params = a.posonlyargs + a.args
+    defaults = dict(zip([x.arg for x in params[len(params) - len(a.defaults):]], a.defaults))
+    defaults.update({k.arg: d for k, d in zip(a.kwonlyargs, a.kw_defaults) if d is not None})
+    extras = {x.arg for x in params[n_role:]} | {x.arg for x in a.kwonlyargs}
+    for t, pol in p.conds:
+        nm = None
+        if isinstance(t, ast.Name) and t.id in extras and t.id in defaults and isinstance(defaults[t.id], ast.Constant):
+            if bool(defaults[t.id].value) != pol:
+                return True
+        if isinstance(t, ast.Compare) and len(t.ops) == 1 and isinstance(t.left, ast.Name) and t.left.id in extras and t.left.id in defaults \
+                and isinstance(defaults[t.left.id], ast.Constant) and isinstance(t.comparators[0], ast.Constant):
+            d, c = defaults[t.left.id].value, t.comparators[0].value
+            if isinstance(t.ops[0], (ast.Is, ast.Eq)):
+                holds = (d is c) if c is None or isinstance(c, bool) else (d == c)
+            elif isinstance(t.ops[0], (ast.IsNot, ast.NotEq)):
+                holds = not ((d is c) if c is None or isinstance(c, bool) else (d == c))
+            else:
+                continue
+            if holds != pol:
+                return True
+    return False
 
 
 def run(ctx):
@@ -35,362 +77,1415 @@ def run(ctx):
     fr = alias.Freshness(repo)
     ctx.ok("C06-V1", ctx.site("geometry.vector", repo.func("geometry.vector", "Vec.__new__")),
            f"Vec(x) is a {'view of x' if fr.vec_is_view else 'copy of x'}")
-    a4_copy(ctx)
-    a5_merge(ctx, fr)
-    a6_transforms(ctx, fr)
-    n1_normalize(ctx)
-    f1_transform_formulas(ctx)
+    try:
+        v1_copy_protocol(ctx, fr)
+    except Exception as e:  # noqa
+        ctx.undecided("C06-V1", ctx.site("geometry.vector", "Vec"), "Vec: the copy protocol could not be read", f"{type(e).__name__}: {e}")
+    from ..core import AnalysisError
+    layout = Layout()
+    for rule, f in (("C06-A4", lambda: _mesh_layout(ctx, layout)), ("C06-A4", lambda: a4_copy(ctx, fr, layout)), ("C06-A5", lambda: a5_merge(ctx, fr, layout)),
+                    ("C06-A6", lambda: a6_transforms(ctx, fr)), ("C06-F1", lambda: f1_transform_formulas(ctx)), ("C06-N1", lambda: n1_normalize(ctx))):
+        try:
+            f()
+        except AnalysisError:
+            raise
+        except Exception as e:  # noqa - a shape the reader trips on is undecided, never a verdict
+            ctx.undecided(rule, ctx.site(MESH, "<module>"), f"{rule}: the rule could not read the code", f"{type(e).__name__}: {e}")
 
 
-def a4_copy(ctx):
+def v1_copy_protocol(ctx, fr):
+    """copy() / merge() rely on deepcopy(x) and x.copy() of a vector allocating: a Vec that redefines them must not answer a view"""
     repo = ctx.repo
-    fn = repo.func(MESH, "copy")
-    site = ctx.site(MESH, fn)
-    # containers exposed by Mesh.__init__
-    init = repo.func(BASE, "Mesh.__init__")
-    exposed = {t.attr for st in au.stmts(init.body) for t in au.assign_targets(st) if au.is_self_attr(t)}
-    ctx.check(exposed == set(CONTAINERS), "C06-A4", ctx.site(BASE, init),
-              f"Mesh.__init__ exposes {sorted(exposed)}; the copy table of the checker knows {sorted(CONTAINERS)}",
-              "a new container must be added to copy() (and to the checker's table)")
-    ps = au.params(fn)
-    src_name = ps[0]
-    # the two branches of `if copy_attributes:`
-    top = [st for st in fn.body if isinstance(st, ast.If) and isinstance(st.test, ast.Name) and st.test.id == "copy_attributes"]
-    if len(top) != 1:
-        ctx.fail("C06-A4", site, "copy() is no longer split on copy_attributes", "")
+    mod = repo.module("geometry.vector")
+    cls = mod.classes.get("Vec")
+    if cls is None:
         return
-    dst_name = None
-    for st in fn.body:
-        if isinstance(st, ast.Assign) and isinstance(st.targets[0], ast.Name) and isinstance(st.value, ast.Call) \
-                and isinstance(st.value.func, ast.Call) and au.call_tail(st.value.func) == "type":
-            dst_name = st.targets[0].id
-    if dst_name is None:
-        ctx.fail("C06-A4", site, "copy() does not instantiate a new mesh of the same type", "")
-        return
-    for branch, whole in ((top[0].body, True), (top[0].orelse, False)):
-        want = set()
-        for c, subs in CONTAINERS.items():
-            if whole:
-                want.add((c,))
-            else:
-                want.update((c, s) for s in subs)
-        got = set()
-        for st in au.stmts(branch):
-            if not isinstance(st, ast.Assign):
-                continue
-            t = st.targets[0]
-            ch = au.chain(t)
-            if not ch or ch[0] != dst_name:
-                continue
-            path = tuple(ch[1:])
-            v = st.value
-            ok = isinstance(v, ast.Call) and au.call_tail(v) == "deepcopy" and len(v.args) == 1 \
-                and au.chain(v.args[0]) == [src_name] + list(path)
-            s = ctx.site(MESH, fn, st)
-            ctx.check(ok, "C06-A4", s, f"copy(): `{au.src(t)}` is assigned `{au.src(v)}` instead of deepcopy({src_name}.{'.'.join(path)})",
-                      "the copy would share (or mix up) storage with its source", note=f"{'.'.join(path)} deep-copied")
-            got.add(path)
-            # guarded by hasattr(mesh, <group>) for non-vertex containers
-            if path[0] != "vertices":
-                grp = {"edges": "edges", "faces": "faces", "face_corners": "faces", "cells": "cells",
-                       "cell_corners": "cells", "cell_faces": "cells"}.get(path[0])
-                gs = [au.src(tt) for tt, pol in au.guards(st, stop=top[0]) if pol]
-                ctx.check(any(f"hasattr({src_name}, '{grp}')" == g for g in gs), "C06-A4", s,
-                          f"copy(): `{au.src(t)}` is not guarded by hasattr({src_name}, '{grp}')", "")
-        ctx.check(got == want, "C06-A4", site,
-                  f"copy({'with' if whole else 'without'} attributes) copies {sorted('.'.join(p) for p in got)}",
-                  f"missing {sorted('.'.join(p) for p in want - got)}, unexpected {sorted('.'.join(p) for p in got - want)}: "
-                  f"a copy must equal its source on every container")
-    # anything else assigned from the source by reference
-    for st in au.stmts(fn.body):
-        if isinstance(st, ast.Assign) and any(a is top[0] for a in au.ancestors(st)):
-            continue
-        if isinstance(st, ast.Assign):
-            ch = au.chain(st.targets[0])
-            if ch and ch[0] == dst_name and len(ch) > 1:
-                reads_src = any(isinstance(n, ast.Name) and n.id == src_name for n in au.walk(st.value))
-                fresh = isinstance(st.value, ast.Call) and au.call_tail(st.value) in ("deepcopy",)
-                if fresh and au.src(st.value.args[0]) == f"{src_name}.connectivity":
-                    memo = st.value.args[1] if len(st.value.args) > 1 else None
-                    ok = isinstance(memo, ast.Dict) and any(au.src(k) == f"id({src_name})" and au.src(v) == dst_name
-                                                            for k, v in zip(memo.keys, memo.values))
-                    ctx.check(ok, "C06-A4", ctx.site(MESH, fn, st),
-                              "copy(): the connectivity is deep-copied without re-pointing its back-reference to the new mesh",
-                              "the connectivity object refers to its mesh: a plain deepcopy drags a hidden copy of the source along "
-                              "and the copy's connectivity keeps answering for that hidden mesh, not for the copy")
+    for st in cls.body:
+        if isinstance(st, ast.FunctionDef) and st.name in ("__copy__", "__deepcopy__", "copy"):
+            site = ctx.site("geometry.vector", st)
+            ps = SX(repo, "geometry.vector", "Vec").run(st)
+            me = au.params(st)[0]
+            verdicts = set()
+            for p in ps:
+                if p.end != "return" or p.ret is None:
                     continue
-                ctx.check(not reads_src or fresh, "C06-A4", ctx.site(MESH, fn, st),
-                          f"copy(): `{au.src(st)}` shares an object of the source mesh with the copy",
-                          "the shared object (and its back-reference to the source) is mutable state common to both meshes: "
-                          "a query or edit through one changes the other")
+                r = fresh3(p.ret, fr)
+                verdicts.add("alias" if (r == "alias" and _has_name(p.ret, me)) else r)
+            if "alias" in verdicts:
+                ctx.fail("C06-V1", site, f"Vec.{st.name} answers a view of the vector instead of a new array",
+                         "deepcopy / copy of a mesh, of a container or of a vertex then shares the coordinate buffers with the original: "
+                         "an in-place edit of one shows in the other")
+            elif "unknown" in verdicts or not verdicts:
+                ctx.undecided("C06-V1", site, f"Vec.{st.name}: cannot tell whether the answer is a new array")
+            else:
+                ctx.ok("C06-V1", site, f"Vec.{st.name} allocates")
 
 
-def a5_merge(ctx, fr):
+# ---------------------------------------------------------------------------- shared
+def _run(ctx, rule, modname, qual, cls=None, **kw):
+    fn = ctx.repo.func(modname, qual)
+    site = ctx.site(modname, fn)
+    try:
+        ps = SX(ctx.repo, modname, cls, **kw).run(fn)
+    except (TooComplex, RecursionError) as e:
+        ctx.undecided(rule, site, f"{qual}: too many paths to read", str(e))
+        return fn, site, None
+    bad = sorted({n for p in ps for n in p.notes})
+    if bad:
+        ctx.undecided(rule, site, f"{qual}: contains a statement the path reader does not model", "; ".join(bad))
+        return fn, site, None
+    return fn, site, ps
+
+
+def _nt(ctx, modname, fn):
+    """renderer of code snippets for finding texts: local names are replaced by placeholders"""
+    keep = hd_sx.keep_names(ctx.repo, modname, fn)
+    return lambda node: hd_sx.neutral(node, keep) if isinstance(node, ast.AST) else str(node)
+
+
+def _has_name(e, nm):
+    return isinstance(e, ast.AST) and any(isinstance(n, ast.Name) and n.id == nm for n in ast.walk(e))
+
+
+def chain_root(e):
+    """(root expression, [attribute names]) of `root.a.b.c`"""
+    parts = []
+    while isinstance(e, ast.Attribute):
+        parts.append(e.attr)
+        e = e.value
+    return e, parts[::-1]
+
+
+FRESH_CALLS = alias.ALLOC_CALLS
+VIEWS = alias.VIEW_CALLS
+
+
+def fresh3(e, fr, fresh_names=()):
+    """'fresh' (a newly allocated object) / 'alias' (a recognised reference to / view of an existing object) / 'unknown'"""
+    if isinstance(e, ast.Constant):
+        return "fresh"
+    if isinstance(e, ast.BinOp) and isinstance(e.op, alias.ARITH):
+        return "fresh"
+    if isinstance(e, ast.UnaryOp) and isinstance(e.op, (ast.USub, ast.UAdd)):
+        return "fresh"
+    if isinstance(e, ast.IfExp):
+        a, b = fresh3(e.body, fr, fresh_names), fresh3(e.orelse, fr, fresh_names)
+        return "alias" if "alias" in (a, b) else ("fresh" if a == b == "fresh" else "unknown")
+    if isinstance(e, ast.Name):
+        return "fresh" if e.id in fresh_names else "alias"
+    if isinstance(e, ast.Attribute):
+        if e.attr in ("T", "real", "imag", "flat"):
+            return fresh3(e.value, fr, fresh_names)
+        return "alias" if hd_sx.is_path(e) else "unknown"
+    if isinstance(e, ast.Subscript):
+        b = fresh3(e.value, fr, fresh_names)
+        if b == "fresh":
+            return "fresh"          # a row / slice of a block nobody else references
+        return b
+    if isinstance(e, ast.Call):
+        t = au.call_tail(e)
+        if any(k.arg == "copy" and isinstance(k.value, ast.Constant) and k.value.value is False for k in e.keywords):
+            # astype(.., copy=False) / np.array(x, copy=False): the argument itself when no conversion is needed
+            base = e.func.value if (isinstance(e.func, ast.Attribute) and au.chain(e.func.value) not in (["np"], ["numpy"])) else (e.args[0] if e.args else None)
+            return fresh3(base, fr, fresh_names) if base is not None else "unknown"
+        if t == "Vec":
+            if len(e.args) >= 2 or not e.args:
+                return "fresh"
+            return fresh3(e.args[0], fr, fresh_names) if fr.vec_is_view else "fresh"
+        if t in VIEWS:
+            base = e.args[0] if (e.args and isinstance(e.func, ast.Attribute) and au.chain(e.func.value) in (["np"], ["numpy"])) \
+                else (e.func.value if isinstance(e.func, ast.Attribute) else None)
+            if base is not None and t in ("asarray", "asanyarray") and (isinstance(base, (ast.List, ast.ListComp)) or
+                                                                       (isinstance(base, ast.Attribute) and base.attr == "_data" and src(base).endswith(".vertices._data"))
+                                                                       or (isinstance(base, ast.Call) and au.call_tail(base) == "list")):
+                return "fresh"      # converting a python list (of vectors) allocates the 2-D block
+            return fresh3(base, fr, fresh_names) if base is not None else "unknown"
+        return "fresh"              # allocation calls; unknown calls return new objects in this code base (can only lose alarms)
+    if isinstance(e, (ast.Tuple, ast.List)):
+        rs = [fresh3(x, fr, fresh_names) for x in e.elts]
+        return "alias" if "alias" in rs else ("fresh" if all(r == "fresh" for r in rs) else "unknown")
+    if isinstance(e, (ast.ListComp, ast.GeneratorExp)):
+        return fresh3(e.elt, fr, fresh_names)
+    return "unknown"
+
+
+# ---------------------------------------------------------------------------- what a mesh exposes
+class Layout:
+    def __init__(self):
+        self.exposed = {}      # container name -> canonical guard under which Mesh.__init__ exposes it
+        self.kind = {}         # container name -> class name (DataContainer / CornerDataContainer)
+        self.raw = {}          # class name -> raw storage fields
+        self.ok = False
+
+    def group(self, c):
+        g = self.exposed.get(c)
+        return {x for x, gx in self.exposed.items() if gx == g}
+
+    def level(self, c):
+        """k when the container is exposed exactly for dim > k (-1: always), else None"""
+        import re
+        g = self.exposed.get(c)
+        if g == "":
+            return -1
+        parts = (g or "").split(" & ")
+        ms = [re.fullmatch(r"(\d+) < (\w+)", x) for x in parts]
+        if not all(ms) or len({m.group(2) for m in ms}) != 1:
+            return None
+        return max(int(m.group(1)) for m in ms)
+
+    def infer(self, has):
+        """presence facts completed with the order of the dimensions: a mesh that has cells has faces and edges, one without edges has neither"""
+        out = dict(has)
+        lv = {c: self.level(c) for c in self.exposed}
+        for c, l in lv.items():
+            if l is None or c in out:
+                continue
+            if any(out.get(d) is True and lv.get(d) is not None and lv[d] >= l for d in has):
+                out[c] = True
+            elif any(out.get(d) is False and lv.get(d) is not None and lv[d] <= l for d in has):
+                out[c] = False
+        return out
+
+
+FALLBACK_KIND = {"vertices": "DataContainer", "edges": "DataContainer", "faces": "DataContainer", "cells": "DataContainer",
+                 "face_corners": "CornerDataContainer", "cell_corners": "CornerDataContainer", "cell_faces": "CornerDataContainer"}
+
+
+def _mesh_layout(ctx, lay):
     repo = ctx.repo
-    fn = repo.func(MESH, "merge")
-    site = ctx.site(MESH, fn)
-    loops = [st for st in fn.body if isinstance(st, ast.For) and isinstance(st.target, ast.Name)]
-    if len(loops) != 1:
-        ctx.fail("C06-A5", site, "merge(): no single loop over the input meshes", "")
-        return
-    lp = loops[0]
-    m = lp.target.id
-    adds = {}
-    for st in au.stmts(lp.body):
-        if isinstance(st, ast.AugAssign) and isinstance(st.op, ast.Add) and isinstance(st.target, ast.Attribute) \
-                and isinstance(st.target.value, ast.Name):
-            adds[st.target.attr] = st
-    # vertices: fresh per element
-    st = adds.get("vertices")
-    if st is None:
-        ctx.fail("C06-A5", site, "merge(): vertices of the inputs are not appended with `merged.vertices += ...`", "")
-    else:
-        v = st.value
-        per_elem_fresh = False
-        if isinstance(v, (ast.ListComp, ast.GeneratorExp)) and len(v.generators) == 1 \
-                and au.src(v.generators[0].iter) == f"{m}.vertices":
-            per_elem_fresh = fr.is_fresh(v.elt, names_nonfresh={x for x in au.assigned_names(v.generators[0].target)})
-        elif isinstance(v, ast.Call) and au.call_tail(v) == "deepcopy":
-            per_elem_fresh = True
-        ctx.check(per_elem_fresh, "C06-A5", ctx.site(MESH, fn, st),
-                  f"merge(): `{au.src(st)}` puts the inputs' own vertex objects into the result",
-                  "the merged mesh and its inputs share coordinate arrays (Vec(x) in prepare() is a view): editing the result "
-                  "changes an input, and merging the same mesh twice then translating moves every vertex twice",
-                  note="vertex payload copied per element")
-    # offset
-    offs = [s for s in au.stmts(lp.body) if isinstance(s, ast.AugAssign) and isinstance(s.target, ast.Name) and isinstance(s.op, ast.Add)]
-    if len(offs) != 1:
-        ctx.fail("C06-A5", site, f"merge(): {len(offs)} running-offset updates in the loop instead of one", "")
-        return
-    off = offs[0].target.id
-    ctx.check(au.src(offs[0].value) == f"len({m}.vertices)" and not au.guards(offs[0], stop=lp), "C06-A5", ctx.site(MESH, fn, offs[0]),
-              f"merge(): offset advances by `{au.src(offs[0].value)}` instead of len({m}.vertices), unconditionally",
-              "indices of the next input must be shifted by the number of vertices merged so far")
-    init = [s for s in fn.body if isinstance(s, ast.Assign) and isinstance(s.targets[0], ast.Name) and s.targets[0].id == off]
-    ctx.check(len(init) == 1 and au.const(init[0].value) == 0 and init[0].lineno < lp.lineno, "C06-A5", site,
-              f"merge(): offset `{off}` is not initialised to 0 before the loop", "")
-    n_kinds = 0
-    for kind in ("edges", "faces", "cells"):
-        st = adds.get(kind)
-        if st is None:
-            ctx.fail("C06-A5", site, f"merge(): {kind} of the inputs are not appended", "")
+    init = repo.func(BASE, "Mesh.__init__")
+    site = ctx.site(BASE, init)
+    try:
+        ps = SX(repo, BASE, "Mesh").run(init)
+    except (TooComplex, RecursionError) as e:
+        ctx.undecided("C06-A4", site, "Mesh.__init__: too many paths to read", str(e))
+        return lay
+    data = au.params(init, skip_self=True)
+    for p in ps:
+        if p.end == "raise":
             continue
-        n_kinds += 1
-        v = st.value
-        ok = False
-        if isinstance(v, (ast.ListComp, ast.GeneratorExp)) and len(v.generators) == 1 and au.src(v.generators[0].iter) == f"{m}.{kind}":
-            row = v.generators[0].target.id if isinstance(v.generators[0].target, ast.Name) else None
-            inner = v.elt
-            while isinstance(inner, ast.Call) and au.call_tail(inner) in ("tuple", "list") and len(inner.args) == 1:
-                inner = inner.args[0]
-            if isinstance(inner, (ast.GeneratorExp, ast.ListComp)) and len(inner.generators) == 1 \
-                    and au.src(inner.generators[0].iter) == row and isinstance(inner.generators[0].target, ast.Name):
-                u = inner.generators[0].target.id
-                p = sym.to_poly(inner.elt)
-                ok = p == sym.Poly.atom(off) + sym.Poly.atom(u) and not inner.generators[0].ifs and not v.generators[0].ifs
-        before = [id(x) for x in lp.body]
-        top_st = st
-        while au.enclosing_block(top_st)[0] is not lp.body and au.parent(top_st) is not None:
-            top_st = au.parent(top_st)
-        used_before_update = before.index(id(top_st)) < before.index(id(offs[0])) if id(top_st) in before and id(offs[0]) in before else False
-        ctx.check(ok and used_before_update, "C06-A5", ctx.site(MESH, fn, st),
-                  f"merge(): {kind} are not re-indexed as `{off} + u` for every index u of every row, before the offset advances",
-                  "a merge is the disjoint union of its inputs with indices shifted by the running vertex count",
-                  note=f"{kind} shifted by the running offset")
-        ctx.check(any(au.src(t) == f"hasattr({m}, '{kind}')" and pol for t, pol in au.guards(st, stop=lp)), "C06-A5",
-                  ctx.site(MESH, fn, st), f"merge(): {kind} of an input are read without hasattr({m}, '{kind}')", "")
+        for ev, conds, loops in walk_events(p):
+            if ev.kind == "store" and au.is_self_attr(ev.a) and not loops:
+                guard = " & ".join(sorted(au.canon_test(t, pol) for t, pol in conds if not any(_has_name(t, d) for d in data[1:2])))
+                lay.exposed.setdefault(ev.a.attr, guard)
+            elif ev.kind == "loop":
+                ctx.undecided("C06-A4", site, "Mesh.__init__ fills its containers in a loop that could not be unrolled", src(ev.a))
+                return lay
+    # class of each container (RawMeshData.__init__) and raw fields of each class
+    try:
+        rinit = repo.func(MD, "RawMeshData.__init__")
+        for p in SX(repo, MD, "RawMeshData").run(rinit):
+            for ev, _, _ in walk_events(p):
+                if ev.kind == "store" and au.is_self_attr(ev.a):
+                    for n in ast.walk(ev.b):
+                        if isinstance(n, ast.Name) and n.id in ("DataContainer", "CornerDataContainer"):
+                            lay.kind.setdefault(ev.a.attr, n.id)
+    except (TooComplex, RecursionError, Exception):   # noqa - the fallback table below is used
+        pass
+    for c in lay.exposed:
+        lay.kind.setdefault(c, FALLBACK_KIND.get(c))
+    for cname in ("DataContainer", "CornerDataContainer"):
+        try:
+            f = repo.func(DC, cname + ".__init__")
+            lay.raw[cname] = sorted({t.attr for st in au.stmts(f.body) for t in au.assign_targets(st) if au.is_self_attr(t)})
+        except Exception:  # noqa
+            lay.raw[cname] = []
+        if not lay.raw[cname]:
+            lay.raw[cname] = ["_data"] if cname == "DataContainer" else ["_elem", "_adj"]
+    if not lay.exposed or any(lay.kind.get(c) is None for c in lay.exposed):
+        ctx.undecided("C06-A4", site, "the containers Mesh.__init__ exposes (and their classes) could not be read",
+                      f"exposed {sorted(lay.exposed)}; classes {lay.kind}")
+        return lay
+    lay.ok = True
+    ctx.ok("C06-A4", site, f"Mesh.__init__ exposes {sorted(lay.exposed)}")
+    return lay
 
 
-TRANSFORMS = ["translate", "rotate", "scale", "scale_xyz"]
+# ---------------------------------------------------------------------------- A4
+def _is_new_of(e, src_name):
+    """`type(src)()` (or a class call): the freshly instantiated mesh"""
+    if isinstance(e, ast.Call) and not e.args and not e.keywords and src(e.func) == f"{src_name}.__class__":
+        return True
+    return isinstance(e, ast.Call) and not e.args and isinstance(e.func, ast.Call) and au.call_tail(e.func) == "type" \
+        and len(e.func.args) == 1 and src(e.func.args[0]) == src_name
+
+
+DEEPCOPY_NAMES = {"deepcopy"}
+
+
+def _learn_deepcopy_aliases(repo, modname):
+    """names bound to copy.deepcopy in the module (`from copy import deepcopy as clone`), wherever the import stands"""
+    for n in ast.walk(repo.module(modname).tree):
+        if isinstance(n, ast.ImportFrom) and n.module == "copy" and n.level == 0:
+            for a in n.names:
+                if a.name == "deepcopy":
+                    DEEPCOPY_NAMES.add(a.asname or a.name)
+
+
+def _copy_value(v, src_name, path, fr, vertices, nt=src, mutable_rows=False):
+    """verdict on `dst.<path> = v`: ('ok',) / ('fail', why) / ('und', why)"""
+    want = ".".join([src_name] + list(path))
+    if isinstance(v, ast.Call) and au.call_tail(v) in DEEPCOPY_NAMES and v.args:
+        if src(v.args[0]) == want:
+            return ("ok",)
+        root, parts = chain_root(v.args[0])
+        if isinstance(root, ast.Name) and root.id == src_name:
+            return ("fail", f"deepcopy({src(v.args[0])}) instead of deepcopy({want})", "the copy would mix up the containers of its source")
+        return ("und", f"deepcopy of `{src(v.args[0])}`")
+    if hd_sx.is_path(v) and _has_name(v, src_name):
+        return ("fail", f"`{nt(v)}` assigned by reference", "the copy would share storage with its source")
+    if isinstance(v, ast.Call) and au.call_tail(v) in ("DataContainer", "CornerDataContainer"):
+        raw = [a for a in list(v.args) + [k.value for k in v.keywords] if hd_sx.is_path(a) and src(a).startswith(want + "._") and not src(a).endswith("._attr")]
+        if raw and vertices:
+            return ("fail", f"a new container built over `{nt(raw[0])}`: the constructor copies the list, not the vectors in it",
+                    "the copy holds the very vector objects of its source: an in-place edit of a vertex of one mesh shows in the other")
+        return ("und", f"`{nt(v)[:80]}`")
+    shallow = None
+    if isinstance(v, ast.Call) and au.call_tail(v) in ("list", "tuple", "copy") and (v.args or isinstance(v.func, ast.Attribute)):
+        inner = v.args[0] if v.args else v.func.value
+        if _has_name(inner, src_name) and hd_sx.is_path(inner):
+            shallow = f"`{nt(v)}` is a shallow copy"
+    if isinstance(v, ast.Subscript) and isinstance(v.slice, ast.Slice) and _has_name(v.value, src_name):
+        shallow = f"`{nt(v)}` is a shallow copy"
+    if isinstance(v, (ast.ListComp, ast.GeneratorExp)) and len(v.generators) == 1 and _has_name(v.generators[0].iter, src_name):
+        g = v.generators[0]
+        r = fresh3(v.elt, fr)
+        if vertices:
+            if r == "fresh" and not g.ifs:
+                return ("ok",)
+            if r == "alias":
+                return ("fail", f"`{nt(v)}` puts views of / references to the source's vectors into the copy",
+                        "Vec(x) is a view of x: the copy shares every coordinate buffer with its source, an in-place edit of one mesh shows in the other")
+        return ("und", f"`{src(v)}`")
+    if shallow:
+        if vertices:
+            return ("fail", shallow + ": the vertex vectors themselves are shared", "an in-place edit of a vertex of one mesh shows in the other")
+        if mutable_rows:
+            return ("fail", shallow + ": the rows of the element list are shared",
+                    "the rows of edges / faces / cells can be lists or arrays (from_arrays, appended lists): editing an element of the copy in place changes the source")
+        return ("und", shallow)
+    return ("und", f"`{src(v)}`")
+
+
+def a4_copy(ctx, fr, lay):
+    repo = ctx.repo
+    _learn_deepcopy_aliases(repo, MESH)
+    fn0 = repo.func(MESH, "copy")
+    sname0 = (au.params(fn0) or [None])[0]
+
+    def raw_field_test(atom):
+        """hasattr(<source>.<container>, '<raw field>') is decided by the class of the container"""
+        if lay.ok and isinstance(atom, ast.Call) and au.call_tail(atom) == "hasattr" and len(atom.args) == 2 and isinstance(atom.args[1], ast.Constant):
+            root, parts = chain_root(atom.args[0])
+            if isinstance(root, ast.Name) and root.id == sname0 and len(parts) == 1 and parts[0] in lay.kind:
+                f = atom.args[1].value
+                if f in [x for k in lay.raw for x in lay.raw[k]] + ["_attr", "id"]:
+                    return f in lay.raw[lay.kind[parts[0]]] or f in ("_attr", "id")
+        return None
+    fn, site, ps = _run(ctx, "C06-A4", MESH, "copy", fold_hook=raw_field_test)
+    if ps is None or not lay.ok:
+        if ps is not None:
+            ctx.undecided("C06-A4", site, "copy(): the list of containers of a mesh is not available")
+        return
+    params = au.params(fn)
+    if len(params) < 2:
+        ctx.undecided("C06-A4", site, "copy() without (mesh, copy_attributes) parameters")
+        return
+    sname, mode = params[0], params[1]
+    nt = _nt(ctx, MESH, fn)
+    fails, unds, n_ok = {}, set(), 0
+    for p in ps:
+        if p.end == "raise":
+            continue
+        whole = None
+        has = {}
+        for t, pol in p.conds:
+            if isinstance(t, ast.Name) and t.id == mode:
+                whole = pol
+            if isinstance(t, ast.Call) and au.call_tail(t) == "hasattr" and len(t.args) == 2 and src(t.args[0]) == sname \
+                    and isinstance(t.args[1], ast.Constant):
+                has[t.args[1].value] = pol
+        # a test on the raw fields of a container is decided by the class of the container: infeasible paths are dropped
+        infeasible = False
+        for t, pol in p.conds:
+            if isinstance(t, ast.Call) and au.call_tail(t) == "hasattr" and len(t.args) == 2 and isinstance(t.args[1], ast.Constant):
+                root, parts = chain_root(t.args[0])
+                if isinstance(root, ast.Name) and root.id == sname and len(parts) == 1 and parts[0] in lay.kind:
+                    known = t.args[1].value in lay.raw[lay.kind[parts[0]]] or t.args[1].value in ("_attr", "id")
+                    other = [f for k in lay.raw for f in lay.raw[k]]
+                    if t.args[1].value in other + ["_attr", "id"] and known != pol:
+                        infeasible = True
+        if infeasible:
+            continue
+        has = lay.infer(has)
+        if whole is None:
+            present = [c for c in lay.exposed if not any(has.get(g) is False for g in lay.group(c)) and (not lay.exposed[c] or any(has.get(g) for g in lay.group(c)))]
+            if present:
+                unds.add("a path of copy() does not depend on copy_attributes")
+            continue
+        copied = {}
+        opaque = False
+        for ev, conds, loops in walk_events(p):
+            if loops:
+                if ev.kind in ("store", "aug", "call"):
+                    opaque = True
+                continue
+            if ev.kind == "call" and any(_is_new_of(a, sname) for a in list(ev.a.args) + [k.value for k in ev.a.keywords]):
+                opaque = True
+            if ev.kind == "aug":
+                root, parts = chain_root(ev.a)
+                if _is_new_of(root, sname):
+                    opaque = True
+            if ev.kind != "store":
+                continue
+            root, parts = chain_root(ev.a)
+            if not (_is_new_of(root, sname) and parts):
+                if _has_name(ev.a, sname) and isinstance(root, ast.Name) and root.id == sname:
+                    unds.add(f"copy() writes into its source: `{src(ev.a)} = ...`")
+                continue
+            path = tuple(parts)
+            v = ev.b
+            s = ctx.site(MESH, fn, ev.node)
+            if path == ("connectivity",):
+                if isinstance(v, ast.Call) and au.call_tail(v) in DEEPCOPY_NAMES and v.args and src(v.args[0]) == f"{sname}.connectivity":
+                    memo = v.args[1] if len(v.args) > 1 else next((k.value for k in v.keywords if k.arg == "memo"), None)
+                    good = isinstance(memo, ast.Dict) and any(src(k) == f"id({sname})" and _is_new_of(val, sname) for k, val in zip(memo.keys, memo.values))
+                    if good:
+                        ctx.ok("C06-A4", s, "connectivity deep-copied with its back-reference re-pointed")
+                    elif memo is None:
+                        fails["copy(): the connectivity is deep-copied without re-pointing its back-reference to the new mesh"] = \
+                            "the connectivity object refers to its mesh: a plain deepcopy drags a hidden copy of the source along and the " \
+                            "copy's connectivity keeps answering for that hidden mesh, not for the copy"
+                    else:
+                        unds.add(f"connectivity copied with memo `{src(memo)}`")
+                elif hd_sx.is_path(v) and _has_name(v, sname):
+                    fails[f"copy(): `copy.connectivity = {nt(v)}` shares an object of the source mesh with the copy"] = \
+                        "the shared object (and its back-reference to the source) is mutable state common to both meshes: a query or edit through one changes the other"
+                else:
+                    unds.add(f"connectivity set to `{src(v)}`")
+                continue
+            if path[0] not in lay.exposed:
+                if _has_name(v, sname) and fresh3(v, fr) == "alias":
+                    unds.add(f"`copy.{'.'.join(path)} = {src(v)}`: an object of the source is handed to the copy (mutable or not is not known)")
+                continue
+            verdict = _copy_value(v, sname, path, fr, vertices=(path[0] == "vertices"), nt=nt,
+                                  mutable_rows=(lay.kind.get(path[0]) == "DataContainer" and path[-1] in lay.raw["DataContainer"]))
+            copied[path] = verdict
+            if verdict[0] == "fail":
+                fails[f"copy(): `copy.{'.'.join(path)}` is assigned {verdict[1]}"] = verdict[2]
+            elif verdict[0] == "und":
+                unds.add(f"copy.{'.'.join(path)} = {verdict[1]}")
+            # the source must have the container: hasattr on the container or on one of its group
+            c = path[0]
+            if lay.exposed.get(c) and not any(has.get(g) for g in lay.group(c)):
+                unds.add(f"{c} is copied without testing that the source has it")
+        # completeness on this path
+        for c in lay.exposed:
+            grp = lay.group(c)
+            if any(has.get(g) is False for g in grp):
+                continue
+            if lay.exposed[c] and not any(has.get(g) for g in grp):
+                continue                          # presence unknown on this path
+            want = [(c,)] if whole else [(c, f) for f in lay.raw[lay.kind[c]]]
+            for w in want:
+                alt = (c,)                        # a whole-container deepcopy also covers the raw fields
+                if w in copied or (alt in copied and copied[alt][0] == "ok"):
+                    continue
+                if opaque or not copied:
+                    unds.add(f"no assignment of copy.{'.'.join(w)} was recognised")
+                else:
+                    fails[f"copy({'with' if whole else 'without'} attributes) does not copy {'.'.join(w)}"] = \
+                        "a copy must equal its source on every container"
+        n_ok += 1
+    for c, w in fails.items():
+        ctx.fail("C06-A4", site, c, w)
+    if not fails and (unds or n_ok == 0):
+        ctx.undecided("C06-A4", site, "copy(): some assignments are not recognised as deep copies of the same container of the source",
+                      "; ".join(sorted(unds)))
+    elif not fails:
+        ctx.ok("C06-A4", site, f"{n_ok} paths: every exposed container the source has is deep-copied from the same path")
+
+
+# ---------------------------------------------------------------------------- A5
+def _len_of_vertices(e, m):
+    if isinstance(e, ast.Call) and au.call_tail(e) == "len" and len(e.args) == 1 and isinstance(e.args[0], ast.Call) \
+            and au.call_tail(e.args[0]) in ("list", "tuple") and len(e.args[0].args) == 1:
+        e = ast.Call(func=e.func, args=[e.args[0].args[0]], keywords=[])
+    s = src(e).replace(" ", "")
+    return s in (f"len({m}.vertices)", f"{m}.vertices.size", f"len({m}.vertices._data)", f"len({m}.id_vertices)")
+
+
+def _append_events(b, root_ok):
+    """(kind, value, event) for `X.kind += value` / `X.kind.extend(value)` with X accepted by root_ok"""
+    for ev, conds, loops in walk_events(b):
+        if loops:
+            continue
+        if ev.kind == "aug" and isinstance(ev.c, ast.Add) and isinstance(ev.a, ast.Attribute) and root_ok(ev.a.value):
+            yield ev.a.attr, ev.b, ev
+        elif ev.kind == "call" and isinstance(ev.a.func, ast.Attribute) and ev.a.func.attr == "extend" and len(ev.a.args) == 1 \
+                and isinstance(ev.a.func.value, ast.Attribute) and root_ok(ev.a.func.value.value):
+            yield ev.a.func.value.attr, ev.a.args[0], ev
+        elif ev.kind == "store" and isinstance(ev.a, ast.Attribute) and root_ok(ev.a.value) and isinstance(ev.b, ast.BinOp) \
+                and isinstance(ev.b.op, ast.Add) and src(ev.b.left) == src(ev.a):
+            yield ev.a.attr, ev.b.right, ev
+        elif ev.kind == "loop" and isinstance(ev.c.node, ast.For) and len(ev.c.body) == 1 and not ev.c.body[0].conds and ev.c.body[0].end == "fall" \
+                and len(ev.c.body[0].events) == 1:
+            # `for x in it: X.kind.append(f(x))`  ==  `X.kind += [f(x) for x in it]`
+            one = ev.c.body[0].events[0]
+            if one.kind == "call" and isinstance(one.a.func, ast.Attribute) and one.a.func.attr == "append" and len(one.a.args) == 1 \
+                    and isinstance(one.a.func.value, ast.Attribute) and root_ok(one.a.func.value.value):
+                comp = ast.ListComp(elt=one.a.args[0], generators=[ast.comprehension(target=ev.b, iter=ev.a, ifs=[], is_async=0)])
+                ev.x = [one]
+                yield one.a.func.value.attr, comp, ev
+
+
+def a5_merge(ctx, fr, lay):
+    repo = ctx.repo
+    fn, site, ps = _run(ctx, "C06-A5", MESH, "merge")
+    if ps is None:
+        return
+    params = au.params(fn)
+    if not params:
+        ctx.undecided("C06-A5", site, "merge() without a list parameter")
+        return
+    lst = params[0]
+    nt = _nt(ctx, MESH, fn)
+    kinds = [c for c in lay.exposed if lay.kind.get(c) == "DataContainer" and c != "vertices"] if lay.ok else ["edges", "faces", "cells"]
+    loops = []
+    for p in ps:
+        if p.end == "raise":
+            continue
+        for ev in p.events:
+            if ev.kind == "loop" and isinstance(ev.c.node, ast.For):
+                it = ev.a
+                tgt = ev.b
+                if isinstance(it, ast.Call) and au.call_tail(it) == "enumerate" and it.args and isinstance(tgt, ast.Tuple) and len(tgt.elts) == 2:
+                    it, tgt = it.args[0], tgt.elts[1]
+                while isinstance(it, ast.Call) and au.call_tail(it) in ("list", "tuple", "iter") and len(it.args) == 1:
+                    it = it.args[0]
+                if src(it) == lst and isinstance(tgt, ast.Name):
+                    loops.append((p, ev, tgt.id))
+    adopted = [ev for p in ps for ev, _, _ in walk_events(p) if ev.kind in ("aug", "call", "store") for e in hd_sx.exprs_of(ev) for c in ast.walk(e)
+               if isinstance(c, ast.Call) and au.call_tail(c) == "RawMeshData" and c.args and _has_name(c.args[0], lst)]
+    adopted += [p.ret for p in ps if isinstance(p.ret, ast.AST) for c in ast.walk(p.ret)
+                if isinstance(c, ast.Call) and au.call_tail(c) == "RawMeshData" and c.args and _has_name(c.args[0], lst)]
+    if adopted:
+        ctx.fail("C06-A5", site, "merge(): the result is built on RawMeshData(<an input mesh>), which adopts the containers of that input",
+                 "RawMeshData(mesh) takes the containers of the mesh by reference: appending the other inputs grows the first input, and editing the result edits it")
+        return
+    if not loops:
+        ctx.undecided("C06-A5", site, "merge(): no loop over the list of input meshes was recognised")
+        return
+    fails, unds, oks = {}, set(), set()
+    seen_loops = set()
+    for p, lev, m in loops:
+        if id(lev.c.node) in seen_loops:
+            continue
+        seen_loops.add(id(lev.c.node))
+        lp = lev.c
+        root_ok = lambda r: isinstance(r, ast.Call) and not hd_sx.is_path(r) or (isinstance(r, ast.Name) and r.id != m and r.id != lst)
+        offs = set()
+        totals = False
+        appended_somewhere = set()
+        live = []
+        for b in lp.body:
+            if b.end in ("raise",):
+                continue
+            if b.end in ("return", "break"):
+                unds.add("the loop over the inputs can be left early")
+                continue
+            has = {}
+            for t, pol in b.conds:
+                if isinstance(t, ast.Call) and au.call_tail(t) == "hasattr" and len(t.args) == 2 and src(t.args[0]) == m and isinstance(t.args[1], ast.Constant):
+                    has[t.args[1].value] = pol
+            has = lay.infer(has) if lay.ok else has
+            apps = {}
+            known_ev = set()
+            for kind, v, ev in _append_events(b, root_ok):
+                apps.setdefault(kind, []).append((v, ev))
+                known_ev.add(id(ev))
+                known_ev.update(id(x) for x in (ev.x or ()))
+            # effects of the body that are neither an append to a container of the result nor an update of a plain counter
+            opaque = [ev for ev, _, lps in walk_events(b) if id(ev) not in known_ev and (
+                ev.kind in ("store", "loop", "other", "del") or (ev.kind == "aug" and not isinstance(ev.a, ast.Name)) or
+                (ev.kind == "call" and (_has_name(ev.a, m) and not (isinstance(ev.a.func, ast.Attribute) and ev.a.func.attr in ("warn", "debug", "info", "warning")))))]
+            live.append((b, has, apps, bool(opaque)))
+            appended_somewhere.update(apps)
+        for b, has, apps, opaque in live:
+            # --- vertices
+            if "vertices" not in apps and not _empty_mesh(b.conds, m):
+                unds.add("no `merged.vertices += ...` recognised on a path of the loop")
+            for v, ev in apps.get("vertices", []):
+                s = ctx.site(MESH, fn, ev.node)
+                verdict = "unknown"
+                if isinstance(v, (ast.ListComp, ast.GeneratorExp)) and len(v.generators) == 1 \
+                        and src(v.generators[0].iter) in (f"{m}.vertices", f"{m}.vertices._data") and not v.generators[0].ifs:
+                    verdict = fresh3(v.elt, fr)
+                elif isinstance(v, ast.Call) and au.call_tail(v) == "deepcopy" and v.args and _has_name(v.args[0], m):
+                    verdict = "fresh"
+                elif isinstance(v, ast.Subscript) and isinstance(v.slice, ast.Call) and au.call_tail(v.slice) == "id" and v.slice.args and src(v.slice.args[0]) == m:
+                    verdict = "memo"
+                elif hd_sx.is_path(v) and _has_name(v, m) or (isinstance(v, ast.Call) and au.call_tail(v) in ("list", "tuple") and len(v.args) == 1
+                                                              and hd_sx.is_path(v.args[0]) and _has_name(v.args[0], m)):
+                    verdict = "alias"
+                if verdict == "memo":
+                    fails["merge(): the vertices added for an input are looked up in a table keyed by the identity of the input"] = (
+                        "the same mesh merged twice puts the same vector objects twice in the result: editing one vertex of the result changes another", s)
+                elif verdict == "alias":
+                    fails[f"merge(): `{nt(ev.node)}` puts the inputs' own vertex objects into the result"] = (
+                        "the merged mesh and its inputs share coordinate arrays (Vec(x) in prepare() is a view): editing the result "
+                        "changes an input, and merging the same mesh twice then translating moves every vertex twice", s)
+                elif verdict == "fresh":
+                    oks.add("vertex payload copied per element")
+                else:
+                    unds.add(f"vertices appended as `{src(v)}`")
+            # --- index kinds
+            for kind in kinds:
+                if has.get(kind) is False:
+                    continue
+                if kind not in apps:
+                    if kind not in has:
+                        continue                     # whether this input has the container is not known on this path
+                    empt = any((src(t).replace(" ", "") in (f"{m}.{kind}.empty()", f"len({m}.{kind})==0") and pol) or
+                               (src(t).replace(" ", "") in (f"len({m}.{kind})", f"{m}.{kind}", f"len({m}.{kind})>0") and not pol) for t, pol in b.conds)
+                    if empt:
+                        continue
+                    others = [au.canon_test(ast.parse(nt(t), mode="eval").body, pol) for t, pol in b.conds if not (isinstance(t, ast.Call) and au.call_tail(t) == "hasattr"
+                                                                                   and src(t.args[1]).strip("'\"") == kind)]
+                    if opaque:
+                        unds.add(f"no append of the {kind} recognised")
+                    else:
+                        fails[f"merge(): the {kind} of an input that has {kind} are not appended when {' and '.join(others) or 'the loop body runs'}"] = (
+                            "a merge is the disjoint union of its inputs: every element of every input appears in the result, shifted by the running vertex count", site)
+                    continue
+                for v, ev in apps[kind]:
+                    s = ctx.site(MESH, fn, ev.node)
+                    poly = None
+                    if isinstance(v, (ast.ListComp, ast.GeneratorExp)) and len(v.generators) == 1 and src(v.generators[0].iter) in (f"{m}.{kind}", f"{m}.{kind}._data") \
+                            and isinstance(v.generators[0].target, ast.Name) and not v.generators[0].ifs:
+                        row = v.generators[0].target.id
+                        inner = v.elt
+                        while isinstance(inner, ast.Call) and au.call_tail(inner) in ("tuple", "list") and len(inner.args) == 1:
+                            inner = inner.args[0]
+                        if isinstance(inner, (ast.GeneratorExp, ast.ListComp)) and len(inner.generators) == 1 and src(inner.generators[0].iter) == row \
+                                and isinstance(inner.generators[0].target, ast.Name) and not inner.generators[0].ifs:
+                            u = inner.generators[0].target.id
+
+                            def atom_of(e, _m=m):
+                                if _len_of_vertices(e, _m):
+                                    return "LEN"
+                                if isinstance(e, ast.Call) and au.call_tail(e) == "len" and len(e.args) == 1 and isinstance(e.args[0], ast.Attribute) \
+                                        and e.args[0].attr == "vertices" and root_ok(e.args[0].value):
+                                    return "TOTAL"          # size of the result before the vertices of this input are appended (the container is pristine in the text)
+                                return None
+                            poly = sym.to_poly(inner.elt, atom_of=atom_of)
+                    if poly is None:
+                        unds.add(f"{kind} appended as `{src(v)[:70]}`")
+                        continue
+                    rest = poly - P.atom(u)
+                    if poly.coeff(u) != P.const(1):
+                        unds.add(f"{kind} re-indexed as `{poly}`")
+                    elif rest.is_zero():
+                        fails[f"merge(): {kind} are appended without shifting their vertex indices"] = (
+                            "a merge is the disjoint union of its inputs with indices shifted by the running vertex count", s)
+                    elif rest == P.atom("TOTAL"):
+                        oks.add(f"{kind} shifted by the number of vertices already merged")
+                        totals = True
+                    elif len(rest.t) == 1 and len(list(rest.t)[0]) == 1 and list(rest.t.values())[0] == 1 and list(rest.t)[0][0] in lp.carried:
+                        offs.add(list(rest.t)[0][0])
+                        oks.add(f"{kind} shifted by the running offset")
+                    elif "LEN" in rest.atoms() and any(a in lp.carried for a in rest.atoms()):
+                        fails[f"merge(): {kind} are shifted by the offset plus the number of vertices of the current input: the offset was advanced before its use"] = (
+                            "the indices of an input must be shifted by the number of vertices merged before it", s)
+                    else:
+                        unds.add(f"{kind} shifted by `{rest}`")
+        for kind in kinds:
+            if kind not in appended_somewhere and not any(kind in c for c in fails):
+                unds.add(f"no append of the {kind} recognised on any path")
+        # --- offset advance on every path of the body
+        for b, has, apps, opaque in live:
+            for off in set(offs):
+                fin = b.env.get(off)
+                cond_txt = " and ".join(au.canon_test(ast.parse(nt(t), mode="eval").body, pol) for t, pol in b.conds) or "always"
+                if _empty_mesh(b.conds, m):
+                    continue                         # an input without vertices does not move the offset
+                if fin is None:
+                    fails[f"merge(): the running offset is not advanced on the path of the loop where {cond_txt}"] = (
+                        "indices of the next input must be shifted by the number of vertices merged so far, whatever the kind of the current input", site)
+                    continue
+                pf = sym.to_poly(fin, atom_of=lambda e, _m=m: "LEN" if _len_of_vertices(e, _m) else None)
+                if pf == P.atom(off) + P.atom("LEN"):
+                    oks.add("offset advanced by len(input.vertices)")
+                elif pf == P.atom("LEN"):
+                    fails["merge(): the running offset is set to the number of vertices of the current input instead of being advanced by it"] = (
+                        "indices of the next input must be shifted by the number of vertices merged so far", site)
+                elif pf.coeff(off) == P.const(1) and not (pf - P.atom(off)).is_zero() and all(a.startswith("⟨len(") and ".vertices" in a and not a.startswith(f"⟨len({m}.")
+                                                                                          for a in (pf - P.atom(off)).atoms()):
+                    fails["merge(): the running offset advances by the size of the result instead of the number of vertices of the current input"] = (
+                        "indices of the next input must be shifted by the number of vertices merged so far", site)
+                else:
+                    unds.add(f"offset becomes `{src(fin)}`")
+        if not offs and not fails and not totals:
+            unds.add("the running offset added to the indices was not identified")
+        for off in offs:
+            i0 = lp.init.get(off)
+            if isinstance(i0, ast.Constant) and i0.value == 0:
+                oks.add("offset starts at 0")
+            elif isinstance(i0, ast.Constant):
+                fails[f"merge(): the running offset starts at {i0.value!r} instead of 0"] = ("the first input keeps its indices", site)
+            else:
+                unds.add("initial value of the running offset not found")
+    for c, (w, s) in fails.items():
+        ctx.fail("C06-A5", s, c, w)
+    if not fails and unds:
+        ctx.undecided("C06-A5", site, "merge(): the loop over the inputs is not recognised as `fresh vertices + indices shifted by a running offset`",
+                      "; ".join(sorted(unds)))
+    elif not fails:
+        ctx.ok("C06-A5", site, "; ".join(sorted(oks)))
+
+
+# ---------------------------------------------------------------------------- A6
+def _vertex_index_loop(lp, mesh):
+    """name of the variable that runs over all vertex ids in this loop, else None"""
+    it, tgt = lp.iter, lp.target
+    s = src(it).replace(" ", "")
+    if s in (f"{mesh}.id_vertices", f"range(len({mesh}.vertices))", f"range({mesh}.vertices.size)", f"range(len({mesh}.vertices._data))") and isinstance(tgt, ast.Name):
+        return tgt.id
+    if isinstance(it, ast.Call) and au.call_tail(it) == "enumerate" and len(it.args) == 1 and isinstance(tgt, ast.Tuple) and len(tgt.elts) == 2 \
+            and isinstance(tgt.elts[0], ast.Name) and (src(it.args[0]) in (f"{mesh}.vertices", f"{mesh}.vertices._data") or _all_vertices_comp(it.args[0], mesh)
+                                                        or _block_of_all_vertices(it.args[0], mesh)):
+        return tgt.elts[0].id
+    if isinstance(it, ast.Call) and au.call_tail(it) == "zip" and len(it.args) == 2 and isinstance(tgt, ast.Tuple) and len(tgt.elts) == 2 \
+            and isinstance(tgt.elts[0], ast.Name) and src(it.args[0]).replace(" ", "") in (f"{mesh}.id_vertices", f"range(len({mesh}.vertices))") \
+            and (_all_vertices_comp(it.args[1], mesh) or src(it.args[1]) in (f"{mesh}.vertices", f"{mesh}.vertices._data") or _block_of_all_vertices(it.args[1], mesh)):
+        return tgt.elts[0].id
+    return None
+
+
+def _all_vertices_comp(e, mesh):
+    """a comprehension with exactly one element per vertex: `[f(P) for P in mesh.vertices]`: returns it"""
+    while isinstance(e, ast.Call) and au.call_tail(e) in ("list", "tuple") and len(e.args) == 1:
+        e = e.args[0]
+    if isinstance(e, (ast.ListComp, ast.GeneratorExp)) and len(e.generators) == 1 and not e.generators[0].ifs \
+            and src(e.generators[0].iter) in (f"{mesh}.vertices", f"{mesh}.vertices._data") and isinstance(e.generators[0].target, ast.Name):
+        return e
+    return None
+
+
+def _loop_element(nm, loops, mesh):
+    """the expression a loop binds to name `nm` for each vertex, when the loop runs over a comprehension of all the vertices
+    or over the rows of a block computed from the stack of all the vertices: (element expression, name of the old position in it / None)"""
+    for lp in loops:
+        it, tgt = lp.iter, lp.target
+        if isinstance(it, ast.Call) and au.call_tail(it) in ("enumerate", "zip") and isinstance(tgt, ast.Tuple) and len(tgt.elts) == 2 \
+                and isinstance(tgt.elts[1], ast.Name) and tgt.elts[1].id == nm and it.args:
+            comp = _all_vertices_comp(it.args[-1], mesh)
+            if comp is not None:
+                return comp.elt, comp.generators[0].target.id
+            if _block_of_all_vertices(it.args[-1], mesh):
+                return it.args[-1], None               # row-wise: the block itself, the stack standing for the old position
+    return None
+
+
+def _block_of_all_vertices(e, mesh):
+    """an array with one row per vertex: built from the stack of all the positions by element-wise arithmetic / calls, never sliced"""
+    if not any(_stack_of_vertices(x, mesh) for x in ast.walk(e)):
+        return False
+    for x in ast.walk(e):
+        if isinstance(x, ast.Subscript) and any(_stack_of_vertices(y, mesh) for y in ast.walk(x.value)):
+            return False
+    return True
+
+
+def _partial_range(lp, mesh):
+    """text of the iterable when it is recognisably a strict part of the vertex ids (range starting after 0 / stopping early / a slice)"""
+    it = lp.iter
+    n = (f"len({mesh}.vertices)", f"{mesh}.vertices.size", f"len({mesh}.vertices._data)")
+    if isinstance(it, ast.Call) and au.call_tail(it) == "range" and isinstance(it.func, ast.Name) and not it.keywords:
+        a = it.args
+        if len(a) in (2, 3) and src(a[1]).replace(" ", "") in n and isinstance(au.const(a[0]), int) and (au.const(a[0]) > 0 or (len(a) == 3 and au.const(a[2]) not in (1, None))):
+            return src(it)
+        stop = a[0] if len(a) == 1 else (a[1] if len(a) >= 2 else None)
+        if stop is not None and (len(a) == 1 or au.const(a[0]) == 0):
+            pl = sym.to_poly(stop, atom_of=lambda e: "N" if src(e).replace(" ", "") in n else None)
+            d = pl - P.atom("N")
+            if d.is_const() and d.const_value() < 0:
+                return src(it)
+    if isinstance(it, ast.Subscript) and isinstance(it.slice, ast.Slice) and src(it.value) in (f"{mesh}.id_vertices",) \
+            and any(x is not None and au.const(x) not in (0, None) for x in (it.slice.lower, it.slice.upper, it.slice.step)):
+        return src(it)
+    return None
+
+
+def _vertex_object_loop(lp, mesh):
+    """names bound to the stored vectors themselves by this loop"""
+    it, tgt = lp.iter, lp.target
+    if src(it) in (f"{mesh}.vertices", f"{mesh}.vertices._data") and isinstance(tgt, ast.Name):
+        return {tgt.id}
+    if isinstance(it, ast.Call) and au.call_tail(it) == "enumerate" and len(it.args) == 1 and src(it.args[0]) in (f"{mesh}.vertices", f"{mesh}.vertices._data") \
+            and isinstance(tgt, ast.Tuple) and len(tgt.elts) == 2 and isinstance(tgt.elts[1], ast.Name):
+        return {tgt.elts[1].id}
+    return set()
+
+
+def _is_vertex_entry(e, mesh):
+    return isinstance(e, ast.Subscript) and src(e.value) in (f"{mesh}.vertices", f"{mesh}.vertices._data")
+
+
+def _empty_mesh(conds, mesh):
+    for t, pol in conds:
+        s = src(t).replace(" ", "")
+        if pol and s in (f"len({mesh}.vertices)==0", f"{mesh}.vertices.empty()", f"len({mesh}.vertices)<1", f"len({mesh}.vertices._data)==0"):
+            return True
+        if not pol and s in (f"len({mesh}.vertices)", f"{mesh}.vertices", f"len({mesh}.vertices)>0", f"{mesh}.vertices._data", f"len({mesh}.vertices)!=0"):
+            return True
+    return False
+
+
+def _const_params(conds, params):
+    """parameter -> number it is known to equal on the path (`factor == 1`); a vector parameter known to be null maps to 0"""
+    out = {}
+    for t, pol in conds:
+        if isinstance(t, ast.Compare) and len(t.ops) == 1 and isinstance(t.ops[0], (ast.Eq, ast.NotEq)) and pol == isinstance(t.ops[0], ast.Eq):
+            a, b = t.left, t.comparators[0]
+            for x, y in ((a, b), (b, a)):
+                if isinstance(x, ast.Name) and x.id in params and isinstance(au.const(y), (int, float)) and not isinstance(au.const(y), bool):
+                    out[x.id] = au.const(y)
+        # not np.any(v) / not v.any()  :  v is exactly null
+        if not pol and isinstance(t, ast.Call) and au.call_tail(t) == "any" and not t.keywords:
+            v = t.args[0] if (t.args and src(t.func) in ("np.any", "numpy.any", "any")) else (t.func.value if isinstance(t.func, ast.Attribute) and not t.args else None)
+            v = _strip_conv(v) if v is not None else None
+            if isinstance(v, ast.Name) and v.id in params:
+                out[v.id] = 0
+    return out
+
+
+def _identity_params(q, params, conds):
+    """the path conditions pin the parameters of transform `q` to the values for which its map is P -> P"""
+    k = _const_params(conds, params)
+    if q == "translate" and len(params) > 1:
+        return k.get(params[1]) == 0
+    if q == "scale" and len(params) > 1:
+        return k.get(params[1]) == 1
+    if q == "scale_xyz" and len(params) > 3:
+        return all(k.get(x) == 1 for x in params[1:4])
+    return False
+
+
+APPROX = ("allclose", "isclose")
+
+
+def _approx_skip(conds):
+    """a condition that holds for small but non-zero parameters"""
+    for t, pol in conds:
+        for n in ast.walk(t):
+            if isinstance(n, ast.Call) and au.call_tail(n) in APPROX and pol:
+                return au.canon_test(t, pol)
+        if isinstance(t, ast.Compare) and len(t.ops) == 1 and isinstance(t.ops[0], (ast.Lt, ast.LtE, ast.Gt, ast.GtE)):
+            sides = [t.left, t.comparators[0]]
+            small = [x for x in sides if isinstance(au.const(x), (int, float)) and 0 < abs(au.const(x)) < 1e-3]
+            meas = [x for x in sides if any(isinstance(n, ast.Call) and au.call_tail(n) in ("norm", "abs", "max", "amax") for n in ast.walk(x))]
+            if small and meas:
+                below = isinstance(t.ops[0], (ast.Lt, ast.LtE)) == (meas[0] is t.left)
+                if below == pol:
+                    return au.canon_test(t, pol)
+    return None
 
 
 def a6_transforms(ctx, fr):
     repo = ctx.repo
     mod = repo.module(TR)
-    # every function of transform.py that stores into mesh.vertices[...] is held to the rule
+    for q in TRANSFORMS:
+        repo.func(TR, q)                     # public anchors: AnalysisError if one vanished
     n = 0
     for q, fn in sorted(mod.funcs.items()):
-        ps = au.params(fn)
-        if not ps:
+        if "<locals>" in q or "." in q or (q.startswith("_") and not q.startswith("__")):
+            continue              # a private helper is read where the public functions call it
+        ps_ = au.params(fn)
+        if not ps_:
             continue
-        mesh = ps[0]
-        stores = []
-        for st in au.stmts(fn.body):
-            if isinstance(st, ast.AugAssign) and isinstance(st.target, ast.Subscript) and au.src(st.target.value) == f"{mesh}.vertices":
-                stores.append((st, "aug", st.target.slice))
-            elif isinstance(st, ast.Assign) and isinstance(st.targets[0], ast.Subscript) and au.src(st.targets[0].value) == f"{mesh}.vertices":
-                stores.append((st, "assign", st.targets[0].slice))
-            elif isinstance(st, (ast.Assign, ast.AugAssign)):
-                t = st.targets[0] if isinstance(st, ast.Assign) else st.target
-                if isinstance(t, ast.Subscript) and isinstance(t.value, ast.Subscript) and au.src(t.value.value) == f"{mesh}.vertices":
-                    stores.append((st, "component", t.value.slice))
-        # in-place updates of stored vectors reached through an alias (loop target over the vertices, P = mesh.vertices[i], a view)
-        b0 = sym.Bindings(fn)
-        inplace = []
-        for st in au.stmts(fn.body):
-            tgt = None
-            if isinstance(st, ast.AugAssign):
-                tgt = st.target if isinstance(st.target, ast.Name) else (st.target.value if isinstance(st.target, (ast.Subscript, ast.Attribute)) else None)
-            elif isinstance(st, ast.Assign) and isinstance(st.targets[0], (ast.Subscript, ast.Attribute)) \
-                    and not (isinstance(st.value, ast.Constant)):
-                tgt = st.targets[0].value
-            if not isinstance(tgt, ast.Name):
+        mesh = ps_[0]
+        try:
+            paths = SX(repo, TR).run(fn)
+        except (TooComplex, RecursionError) as e:
+            if q in TRANSFORMS:
+                ctx.undecided("C06-A6", ctx.site(TR, fn), f"{q}: too many paths to read", str(e))
+            continue
+        site = ctx.site(TR, fn)
+        nt = _nt(ctx, TR, fn)
+        fails, unds, oks = {}, set(), set()
+        touches = False
+        for p in paths:
+            if p.end == "raise" or _nondefault_path(p, fn, ROLE_PARAMS.get(q, len(ps_))):
                 continue
-            name = tgt.id
-            is_vertex_alias = False
-            d = b0.reaching(name, st)
-            if d is not None:
-                for a in fr.aliases(d) | ({au.src(d)} if isinstance(d, ast.Subscript) else set()):
-                    pass
-                root = d
-                while isinstance(root, ast.Call) and au.call_tail(root) in ("Vec", "asarray") and len(root.args) == 1:
-                    root = root.args[0]
-                is_vertex_alias = isinstance(root, ast.Subscript) and au.src(root.value) in (f"{mesh}.vertices", f"{mesh}.vertices._data")
-            else:
-                for a in au.ancestors(st):
-                    if isinstance(a, ast.For) and name in au.assigned_names(a.target):
-                        it = a.iter
-                        if isinstance(it, ast.Call) and au.call_tail(it) == "enumerate" and it.args:
-                            it = it.args[0]
-                        is_vertex_alias = au.src(it) in (f"{mesh}.vertices", f"{mesh}.vertices._data")
-            if is_vertex_alias:
-                inplace.append(st)
-        for st in inplace:
-            ctx.fail("C06-A6", ctx.site(TR, fn, st), f"{q}: `{au.src(st)}` updates a stored vertex vector in place through an alias",
-                     "numpy in-place arithmetic mutates the array object itself: a vector stored under two vertex ids (ring(open=True)), "
-                     "or shared with the caller's array (from_arrays) or with another mesh, is transformed twice / behind the caller's back")
-        if not stores and q not in TRANSFORMS and not inplace:
+            moved = False
+            for ev, conds, loops in walk_events(p):
+                objs = set().union(*[_vertex_object_loop(l, mesh) for l in loops]) if loops else set()
+                if ev.kind == "call":
+                    # numpy calls that write their result into an existing array: out=<stored vector>, np.copyto(<stored vector>, ..)
+                    outs = [k.value for c in ast.walk(ev.a) if isinstance(c, ast.Call) for k in c.keywords if k.arg == "out"]
+                    outs += [c.args[0] for c in ast.walk(ev.a) if isinstance(c, ast.Call) and au.call_tail(c) in ("copyto", "put", "place") and c.args]
+                    hit = [o for o in outs if (isinstance(o, ast.Name) and o.id in objs) or _is_vertex_entry(o, mesh)]
+                    if hit:
+                        touches = moved = True
+                        fails[f"{q}: `{nt(ev.a)}` writes its result into a stored vertex vector"] = (
+                            "the array object itself is mutated: a vector stored under two vertex ids (ring(open=True)), or shared with the caller's array "
+                            "(from_arrays) or with another mesh, is transformed twice / behind the caller's back", ctx.site(TR, fn, ev.node))
+                    continue
+                if ev.kind not in ("store", "aug"):
+                    continue
+                tgt = ev.a
+                s = ctx.site(TR, fn, ev.node)
+                # in-place operation on a stored vector reached through a name bound by a loop over the vertices
+                base = tgt
+                while isinstance(base, (ast.Subscript, ast.Attribute)):
+                    base = base.value
+                if ev.kind == "aug" and isinstance(tgt, ast.Name) and tgt.id in objs or \
+                        (isinstance(base, ast.Name) and base.id in objs and not isinstance(tgt, ast.Name) and not isinstance(ev.b, ast.Constant)):
+                    touches = moved = True
+                    fails[f"{q}: `{nt(ev.node)}` updates a stored vertex vector in place through an alias"] = (
+                        "numpy in-place arithmetic mutates the array object itself: a vector stored under two vertex ids (ring(open=True)), "
+                        "or shared with the caller's array (from_arrays) or with another mesh, is transformed twice / behind the caller's back", s)
+                    continue
+                if _is_vertex_entry(tgt, mesh):
+                    touches = moved = True
+                    idx = tgt.slice
+                    ivars = [_vertex_index_loop(l, mesh) for l in loops]
+                    if ev.kind == "aug":
+                        fails[f"{q}: `{nt(ev.node)}` updates the stored vector in place"] = (
+                            "numpy augmented assignment mutates the array object: a vector object stored under two vertex ids "
+                            "(ring(open=True) stores vertices[1] twice; merged or from_arrays meshes share rows with the caller) is "
+                            "moved twice, and arrays the caller still holds are changed", s)
+                        continue
+                    val = _strip_conv(ev.b) if fr.vec_is_view else ev.b
+                    if isinstance(val, ast.Name):
+                        le = _loop_element(val.id, loops, mesh)
+                        if le is not None:
+                            val = le[0]
+                        elif val.id not in ps_ and val.id not in objs:
+                            val = None                       # a name the reader could not resolve: nothing is known about it
+                    r = fresh3(val, fr) if val is not None else "unknown"
+                    if r == "alias":
+                        fails[f"{q}: `{nt(ev.node)}` stores a value that aliases an existing array"] = ("each vertex must receive a freshly allocated vector", s)
+                    elif r == "unknown":
+                        unds.add(f"{q}: cannot tell whether `{src(ev.b)[:60]}` is a fresh vector")
+                    else:
+                        oks.add("fresh right-hand side")
+                    if not loops or not isinstance(idx, ast.Name) or idx.id not in ivars:
+                        part = [_partial_range(l, mesh) for l in loops if isinstance(idx, ast.Name) and idx.id in au.assigned_names(l.target or ast.Tuple(elts=[]))]
+                        if any(part):
+                            fails[f"{q}: the loop that moves the vertices runs over `{nt(ast.parse([x for x in part if x][0], mode='eval').body)}` instead of all vertex ids"] = (
+                                "every vertex must be moved exactly once", s)
+                        elif q in TRANSFORMS:
+                            unds.add(f"{q}: the vertex store is not indexed by a loop over all vertex ids")
+                    else:
+                        inner = [c for c in conds[len(p.conds):]] if len(conds) >= len(p.conds) else []
+                        # conditions met inside the loop body
+                        body_conds = [(t, pol) for t, pol in conds if (t, pol) not in p.conds]
+                        about = [au.canon_test(ast.parse(nt(t), mode="eval").body, pol) for t, pol in body_conds if _has_name(t, idx.id) or any(_is_vertex_entry(x, mesh) for x in ast.walk(t))]
+                        if about:
+                            fails[f"{q}: vertices are moved only when `{' and '.join(about)}`"] = ("every vertex must be moved exactly once", s)
+                        elif body_conds:
+                            unds.add(f"{q}: the vertex store is conditional")
+                        else:
+                            oks.add("one unconditional store per vertex id")
+                elif ev.kind == "store" and src(tgt) == f"{mesh}.vertices._data":
+                    # the whole list of positions replaced at once
+                    touches = moved = True
+                    v = ev.b
+                    if isinstance(v, ast.ListComp) and len(v.generators) == 1 and not v.generators[0].ifs \
+                            and src(v.generators[0].iter) in (f"{mesh}.vertices", f"{mesh}.vertices._data"):
+                        r = fresh3(v.elt, fr)
+                    elif isinstance(v, ast.Call) and au.call_tail(v) == "list" and len(v.args) == 1 and fresh3(v.args[0], fr) == "fresh" \
+                            and any(_stack_of_vertices(x, mesh) for x in ast.walk(v.args[0])):
+                        r = "fresh"
+                    else:
+                        r = "unknown"
+                    if r == "alias":
+                        fails[f"{q}: `{nt(ev.node)}` keeps the stored vectors themselves"] = ("each vertex must receive a freshly allocated vector", s)
+                    elif r == "unknown":
+                        unds.add(f"{q}: the list of positions is replaced by `{src(v)[:60]}`")
+                    else:
+                        oks.add("all positions rebuilt as fresh vectors")
+                elif isinstance(tgt, ast.Subscript) and _is_vertex_entry(tgt.value, mesh):
+                    touches = True
+                    if ev.kind == "store" and isinstance(ev.b, ast.Constant):
+                        oks.add("idempotent constant store into a component")
+                    else:
+                        fails[f"{q}: component of a stored vector updated in place with a non-constant value"] = (
+                            "an in-place update is applied twice to a vector stored under two ids", s)
+            if q in TRANSFORMS and not moved and p.end in ("return", "fall"):
+                # a path of a transform that leaves the vertices where they are
+                cond_txt = " and ".join(au.canon_test(t, pol) for t, pol in p.conds)
+                ap = _approx_skip(p.conds)
+                if _empty_mesh(p.conds, mesh):
+                    oks.add("nothing to move in an empty mesh")
+                elif _identity_params(q, ps_, p.conds):
+                    oks.add("the requested map is the identity on this path")
+                elif ap:
+                    fails[f"{q}: the vertices are not moved when `{ap}`"] = (
+                        f"an approximate test also holds for small non-zero parameters: {q} is then not the requested map (normalising a mesh in small units "
+                        f"silently skips the step)", site)
+                elif any(isinstance(ev.a, ast.Call) and _has_name(ev.a, mesh) for ev, _, _ in walk_events(p) if ev.kind == "call") or \
+                        (isinstance(p.ret, ast.Call) and _has_name(p.ret, mesh)):
+                    unds.add(f"{q}: the vertices are handed to a function that is not read")
+                else:
+                    unds.add(f"{q}: no vertex is moved on the path where `{cond_txt or 'always'}`")
+        if not touches and q not in TRANSFORMS:
             continue
         n += 1
-        site = ctx.site(TR, fn)
-        if not stores:
-            ctx.fail("C06-A6", site, f"{q}: no store into {mesh}.vertices[i]", "the transform no longer moves the vertices")
-            continue
-        ctx.check(len(stores) == 1, "C06-A6", site, f"{q}: {len(stores)} stores into a vertex per iteration / function instead of one",
-                  "every vertex must be moved exactly once")
-        for st, kind, idx in stores:
-            s = ctx.site(TR, fn, st)
-            loops = [a for a in au.ancestors(st) if isinstance(a, ast.For)]
-            ok_loop = len(loops) == 1 and au.src(loops[0].iter) in (f"{mesh}.id_vertices", f"range(len({mesh}.vertices))") \
-                and isinstance(loops[0].target, ast.Name) and au.src(idx) == loops[0].target.id and not au.guards(st, stop=loops[0])
-            ctx.check(ok_loop, "C06-A6", s, f"{q}: the vertex store is not `for i in {mesh}.id_vertices: {mesh}.vertices[i] = ...` (unguarded, once)",
-                      "every vertex must be moved exactly once")
-            if kind == "aug":
-                ctx.fail("C06-A6", s, f"{q}: `{au.src(st)}` updates the stored vector in place",
-                         "numpy augmented assignment mutates the array object: a vector object stored under two vertex ids "
-                         "(ring(open=True) stores vertices[1] twice; merged or from_arrays meshes share rows with the caller) is "
-                         "moved twice, and arrays the caller still holds are changed")
-            elif kind == "assign":
-                b = sym.Bindings(fn)
-                ctx.check(fr.is_fresh(b.resolve(st.value, at=st, keep=tuple(ps))), "C06-A6", s,
-                          f"{q}: `{au.src(st)}` stores a value that may alias an existing array",
-                          "each vertex must receive a freshly allocated vector", note=f"{q}: fresh right-hand side")
+        for c, (w, s) in fails.items():
+            ctx.fail("C06-A6", s, c, w)
+        if not fails and unds:
+            ctx.undecided("C06-A6", site, f"{q}: not recognised as one fresh store per vertex in a loop over all vertex ids", "; ".join(sorted(unds)))
+        elif not fails:
+            ctx.ok("C06-A6", site, f"{q}: " + "; ".join(sorted(oks)))
+
+
+# ---------------------------------------------------------------------------- polynomials with division and vectors
+def _is_zero_vec(e):
+    return isinstance(e, ast.Call) and au.call_tail(e) in ("zeros", "zeros_like") and (src(e.func).split(".")[0] in ("Vec", "np", "numpy"))
+
+
+def _const_vec(e):
+    """Vec(c, c, c) / np.ones(k) / np.full(k, c): the number every component equals, else None"""
+    if isinstance(e, ast.Call) and au.call_tail(e) in ("Vec", "array") and e.args:
+        elts = e.args[0].elts if (len(e.args) == 1 and isinstance(e.args[0], (ast.List, ast.Tuple))) else e.args
+        vals = [au.const(x) for x in elts]
+        if len(vals) >= 2 and all(isinstance(x, (int, float)) and not isinstance(x, bool) for x in vals) and len(set(vals)) == 1:
+            return vals[0]
+    if isinstance(e, ast.Call) and au.call_tail(e) == "ones" and src(e.func).split(".")[0] in ("Vec", "np", "numpy"):
+        return 1
+    return None
+
+
+def _strip_conv(e):
+    """Vec(x) / np.asarray(x) / np.array(x) of one argument: the same numbers as x"""
+    while True:
+        if isinstance(e, ast.Call) and au.call_tail(e) in ("Vec", "asarray", "array", "asanyarray") and len(e.args) == 1 \
+                and not isinstance(e.args[0], (ast.List, ast.Tuple)):
+            e = e.args[0]
+        elif isinstance(e, ast.Call) and isinstance(e.func, ast.Attribute) and e.func.attr in ("view", "copy", "astype") and src(e.func.value) not in ("np", "numpy"):
+            e = e.func.value
+        else:
+            return e
+
+
+def _stack_of_vertices(e, mesh):
+    e2 = _strip_conv(e)
+    if isinstance(e2, ast.Call) and au.call_tail(e2) in ("stack", "vstack") and e2.args:
+        e2 = e2.args[0]
+    return src(e2) in (f"{mesh}.vertices._data", f"{mesh}.vertices", f"list({mesh}.vertices)", f"list({mesh}.vertices._data)")
+
+
+def vpoly(e, atom_of):
+    """like sym.to_poly, with `a / b` read as a * (1/b) for a non-constant b and one-argument conversions stripped"""
+    def rec(x):
+        x = _strip_conv(x)
+        a = atom_of(x)
+        if a is not None:
+            return a if isinstance(a, P) else P.atom(a)
+        if _is_zero_vec(x):
+            return P.const(0)
+        cv = _const_vec(x)
+        if cv is not None:
+            return P.const(Fraction(cv).limit_denominator(10 ** 9))
+        if isinstance(x, ast.Constant) and isinstance(x.value, (int, float)) and not isinstance(x.value, bool):
+            return P.const(Fraction(x.value).limit_denominator(10 ** 9))
+        if isinstance(x, ast.Name):
+            return P.atom(x.id)
+        if isinstance(x, ast.UnaryOp) and isinstance(x.op, ast.USub):
+            return -rec(x.operand)
+        if isinstance(x, ast.UnaryOp) and isinstance(x.op, ast.UAdd):
+            return rec(x.operand)
+        if isinstance(x, ast.BinOp):
+            if isinstance(x.op, ast.Add):
+                return rec(x.left) + rec(x.right)
+            if isinstance(x.op, ast.Sub):
+                return rec(x.left) - rec(x.right)
+            if isinstance(x.op, ast.Mult):
+                return rec(x.left) * rec(x.right)
+            if isinstance(x.op, ast.Div):
+                r = rec(x.right)
+                if r.is_const() and r.const_value() != 0:
+                    return rec(x.left).scale(1 / r.const_value())
+                return rec(x.left) * P.atom(f"1/({r})")
+        return P.atom("⟨" + src(x) + "⟩")
+    return rec(e)
+
+
+def _moves(p, mesh, inplace=False):
+    """[(index variable, stored value, event)] of the plain vertex stores of a path, in order; with `inplace` the augmented
+    assignments on a vertex entry (or on the vector a loop over the vertices binds) are read as the map they compute"""
+    out = []
+    for ev, conds, loops in walk_events(p):
+        objs = set().union(*[_vertex_object_loop(l, mesh) for l in loops]) if loops else set()
+        if ev.kind == "store" and _is_vertex_entry(ev.a, mesh):
+            vb = _strip_conv(ev.b)
+            le = _loop_element(vb.id, loops, mesh) if isinstance(vb, ast.Name) else None
+            if le is not None:
+                out.append((src(ev.a.slice), le[0], ev, objs | ({le[1]} if le[1] else set())))
             else:
-                # component store: accepted only when it writes a constant (idempotent: applying it twice is harmless)
-                ctx.check(isinstance(st, ast.Assign) and isinstance(st.value, ast.Constant), "C06-A6", s,
-                          f"{q}: component of a stored vector updated in place with a non-constant value",
-                          "an in-place update is applied twice to a vector stored under two ids", note=f"{q}: idempotent constant store")
-    ctx.require_count("C06-A6 transforms", n, 4)
+                out.append((src(ev.a.slice), ev.b, ev, objs))
+        elif ev.kind == "store" and src(ev.a) == f"{mesh}.vertices._data" and isinstance(ev.b, (ast.ListComp,)) and len(ev.b.generators) == 1 \
+                and not ev.b.generators[0].ifs and src(ev.b.generators[0].iter) in (f"{mesh}.vertices", f"{mesh}.vertices._data") \
+                and isinstance(ev.b.generators[0].target, ast.Name):
+            # the whole list of positions rebuilt from the old ones: `mesh.vertices._data = [f(P) for P in mesh.vertices]`
+            out.append(("<each>", ev.b.elt, ev, {ev.b.generators[0].target.id}))
+        elif inplace and ev.kind == "aug":
+            if _is_vertex_entry(ev.a, mesh):
+                out.append((src(ev.a.slice), ast.BinOp(left=ev.a, op=ev.c, right=ev.b), ev, objs))
+            elif isinstance(ev.a, ast.Name) and ev.a.id in objs:
+                out.append(("<each>", ast.BinOp(left=ev.a, op=ev.c, right=ev.b), ev, objs))
+    return out
+
+
+def _point_atom(mesh, i, objs=()):
+    def f(e):
+        if _is_vertex_entry(e, mesh) and src(e.slice) == i:
+            return "P"
+        if isinstance(e, ast.Name) and e.id in objs:
+            return "P"                       # the name a loop over the vertices binds to the old position
+        if _stack_of_vertices(e, mesh):
+            return "P"
+        return None
+    return f
+
+
+def _unrow(v, mesh, i):
+    """`Block[i]` where Block is computed from the stack of all vertices: the row-wise expression"""
+    v = _strip_conv(v)
+    if isinstance(v, ast.Subscript) and src(v.slice) == i and any(_stack_of_vertices(x, mesh) for x in ast.walk(v.value)):
+        return v.value
+    return v
+
+
+# ---------------------------------------------------------------------------- F1
+def f1_transform_formulas(ctx):
+    repo = ctx.repo
+
+    def each_move(q):
+        fn, site, ps = _run(ctx, "C06-F1", TR, q)
+        if ps is None:
+            return fn, site, None
+        mesh = au.params(fn)[0]
+        out = []
+        for p in ps:
+            if p.end == "raise" or _nondefault_path(p, fn, ROLE_PARAMS.get(q, 99)):
+                continue
+            mv = _moves(p, mesh)
+            if len(mv) == 1:
+                out.append((p, mv[0]))
+            elif len(mv) > 1:
+                out.append((p, None))
+        return fn, site, out
+
+    def report(site, q, results, formula, what):
+        bad = [r for r in results if r[0] == "bad"]
+        und = [r for r in results if r[0] == "und"]
+        if bad:
+            ctx.fail("C06-F1", site, f"{q} does not store {formula}", f"{what} (stored: {bad[0][1]})")
+        elif und or not results:
+            ctx.undecided("C06-F1", site, f"{q}: the stored value is not recognised as {formula}", "; ".join(sorted({r[1] for r in und})) or "no plain vertex store found")
+        else:
+            ctx.ok("C06-F1", site, formula)
+
+    def value_of(p, name_, none_means=None):
+        """value of a parameter on a path (a default replaced on the None branch), as an expression; `none_means`: what the parameter
+        stands for on a path where it is None and was not replaced (the documented default)"""
+        if name_ in p.env:
+            return p.env[name_]
+        for t, pol in p.conds:
+            if isinstance(t, ast.Compare) and len(t.ops) == 1 and isinstance(t.ops[0], (ast.Is, ast.IsNot, ast.Eq, ast.NotEq)) and isinstance(t.left, ast.Name) \
+                    and t.left.id == name_ and isinstance(t.comparators[0], ast.Constant) and t.comparators[0].value is None \
+                    and pol == isinstance(t.ops[0], (ast.Is, ast.Eq)) and none_means is not None:
+                return none_means
+        return ast.Name(id=name_, ctx=ast.Load())
+    ZERO = ast.parse("Vec.zeros(3)", mode="eval").body
+
+    # translate: P + tr
+    fn, site, moves = each_move("translate")
+    if moves is not None:
+        ps_ = au.params(fn)
+        res = []
+        for p, mv in moves:
+            if mv is None or len(ps_) < 2:
+                res.append(("und", "several stores per vertex"))
+                continue
+            i, v, ev, objs = mv
+            mesh = ps_[0]
+            poly = vpoly(_unrow(v, mesh, i), _point_atom(mesh, i, objs))
+            want = P.atom("P") + vpoly(value_of(p, ps_[1]), lambda e: None)
+            if poly == want:
+                res.append(("ok", ""))
+            elif poly.atoms() <= want.atoms():
+                res.append(("bad", str(poly)))
+            else:
+                res.append(("und", str(poly)))
+        report(site, "translate", res, "P + tr", "translate(t) then translate(-t) must restore the coordinates")
+    # scale: O + f (P - O)
+    fn, site, moves = each_move("scale")
+    if moves is not None:
+        ps_ = au.params(fn)
+        res = []
+        for p, mv in moves:
+            if mv is None or len(ps_) < 3:
+                res.append(("und", "several stores per vertex"))
+                continue
+            i, v, ev, objs = mv
+            mesh = ps_[0]
+            poly = vpoly(_unrow(v, mesh, i), _point_atom(mesh, i, objs))
+            O = vpoly(value_of(p, ps_[2], ZERO), lambda e: None)
+            f = vpoly(value_of(p, ps_[1]), lambda e: None)
+            want = O + f * (P.atom("P") - O)
+            if poly == want:
+                res.append(("ok", ""))
+            elif poly.atoms() <= want.atoms() | {ps_[2]}:
+                res.append(("bad", str(poly)))
+            else:
+                res.append(("und", str(poly)))
+        report(site, "scale", res, "O + factor * (P - O)", "scaling about O must fix O and scale offsets by the factor")
+    # rotate: O + R (P - O), R linear
+    fn, site, moves = each_move("rotate")
+    if moves is not None:
+        ps_ = au.params(fn)
+        res = []
+        for p, mv in moves:
+            if mv is None or len(ps_) < 3:
+                res.append(("und", "several stores per vertex"))
+                continue
+            i, v, ev, objs = mv
+            mesh = ps_[0]
+            pa = _point_atom(mesh, i, objs)
+
+            def atom_of(e, _pa=pa):
+                a = _pa(e)
+                if a is not None:
+                    return a
+                if isinstance(e, ast.Call) and isinstance(e.func, ast.Attribute) and e.func.attr in ("apply", "dot") and len(e.args) == 1 and not e.keywords \
+                        and not any(_pa(x) for x in ast.walk(e.func.value)):
+                    return P.atom("R") * vpoly(e.args[0], atom_of)
+                if isinstance(e, ast.BinOp) and isinstance(e.op, ast.MatMult):
+                    return P.atom("R") * vpoly(e.right, atom_of) if not any(_pa(x) for x in ast.walk(e.left)) else None
+                return None
+            poly = vpoly(_unrow(v, mesh, i), atom_of)
+            O = vpoly(value_of(p, ps_[2], ZERO), lambda e: None)
+            want = O + P.atom("R") * (P.atom("P") - O)
+            if poly == want:
+                res.append(("ok", ""))
+            elif poly.atoms() <= want.atoms() | {ps_[2]}:
+                res.append(("bad", str(poly)))
+            else:
+                res.append(("und", str(poly)))
+        report(site, "rotate", res, "O + R(P - O)", "rotating about O must fix O; rotate(R) then rotate(R^-1) must restore the coordinates")
+    # scale_xyz: component-wise
+    fn, site, moves = each_move("scale_xyz")
+    if moves is not None:
+        ps_ = au.params(fn)
+        res = []
+        for p, mv in moves:
+            if mv is None or len(ps_) < 5:
+                res.append(("und", "several stores per vertex"))
+                continue
+            i, v, ev, objs = mv
+            mesh = ps_[0]
+            O = value_of(p, ps_[4])
+            comps = _components(_unrow(v, mesh, i), mesh, i, O, objs)
+            if comps is None:
+                res.append(("und", src(v)[:80]))
+                continue
+            good, known = 0, True
+            for k, (c, fac) in enumerate(zip(comps, ps_[1:4])):
+                f = vpoly(value_of(p, fac), lambda e: None)
+                want = P.atom(f"O{k}") + f * (P.atom(f"P{k}") - P.atom(f"O{k}"))
+                good += c == want
+                known = known and c.atoms() <= {f"P{j}" for j in range(3)} | {f"O{j}" for j in range(3)} | set(ps_[1:4])
+            if good == 3:
+                res.append(("ok", ""))
+            elif known:
+                res.append(("bad", "(" + ", ".join(str(c) for c in comps) + ")"))
+            else:
+                res.append(("und", "(" + ", ".join(str(c) for c in comps) + ")"))
+        report(site, "scale_xyz", res, "O + (fx (P.x - O.x), fy (P.y - O.y), fz (P.z - O.z))", "each axis is scaled about O by its own factor")
+
+
+AXES = {"x": 0, "y": 1, "z": 2}
+
+
+def _components(e, mesh, i, O, objs=()):
+    """three polynomials (one per axis) of a vector expression over P (old position) and O (origin), numpy broadcasting rules"""
+    o_src = src(O)
+    pa = _point_atom(mesh, i, objs)
+
+    def vec_atom(x):
+        if pa(x):
+            return "P"
+        if src(x) == o_src:
+            return "O"
+        return None
+
+    def comp_of(x):
+        """(vector atom, axis) for P.x / P[0] / O.y ..."""
+        if isinstance(x, ast.Attribute) and x.attr in AXES and vec_atom(x.value):
+            return vec_atom(x.value), AXES[x.attr]
+        if isinstance(x, ast.Subscript) and isinstance(au.const(x.slice), int) and 0 <= au.const(x.slice) < 3 and vec_atom(x.value):
+            return vec_atom(x.value), au.const(x.slice)
+        return None
+
+    def scalar(x):
+        def atom_of(y):
+            c = comp_of(y)
+            if c:
+                return f"{c[0]}{c[1]}"
+            if vec_atom(y):
+                raise ValueError("vector in scalar position")
+            return None
+        return vpoly(x, atom_of)
+
+    def rec(x):
+        x = _strip_conv(x)
+        va = vec_atom(x)
+        if va:
+            return [P.atom(f"{va}{k}") for k in range(3)]
+        if isinstance(x, ast.Call) and au.call_tail(x) in ("Vec",) and len(x.args) == 3:
+            return [scalar(a) for a in x.args]
+        if isinstance(x, ast.Call) and au.call_tail(x) in ("Vec", "array", "asarray") and len(x.args) == 1 and isinstance(x.args[0], (ast.List, ast.Tuple)) \
+                and len(x.args[0].elts) == 3:
+            return [scalar(a) for a in x.args[0].elts]
+        if isinstance(x, ast.BinOp) and isinstance(x.op, (ast.Add, ast.Sub, ast.Mult)):
+            l, r = rec(x.left), rec(x.right)
+            op = {ast.Add: lambda a, b: a + b, ast.Sub: lambda a, b: a - b, ast.Mult: lambda a, b: a * b}[type(x.op)]
+            if isinstance(l, list) and isinstance(r, list):
+                return [op(a, b) for a, b in zip(l, r)]
+            if isinstance(l, list):
+                return [op(a, r) for a in l]
+            if isinstance(r, list):
+                return [op(l, b) for b in r]
+            return op(l, r)
+        if isinstance(x, ast.UnaryOp) and isinstance(x.op, ast.USub):
+            v = rec(x.operand)
+            return [-a for a in v] if isinstance(v, list) else -v
+        return scalar(x)
+    try:
+        out = rec(e)
+    except ValueError:
+        return None
+    return out if isinstance(out, list) and len(out) == 3 else None
+
+
+# ---------------------------------------------------------------------------- N1
+def _box_atom(mesh):
+    box = f"AABB.of_mesh({mesh})"
+
+    def f(e):
+        s = src(e)
+        if s == box + ".center":
+            return (P.atom("MINI") + P.atom("MAXI")).scale(Fraction(1, 2))
+        if s == box + ".mini":
+            return P.atom("MINI")
+        if s == box + ".maxi":
+            return P.atom("MAXI")
+        if s == box + ".span":
+            return P.atom("MAXI") - P.atom("MINI")
+        if isinstance(e, ast.Call) and (au.call_tail(e) in ("max", "amax") and len(e.args) == 1 and src(e.func).split(".")[0] in ("np", "numpy", "max")
+                                        or isinstance(e.func, ast.Attribute) and e.func.attr == "max" and not e.args):
+            arg = e.args[0] if e.args else e.func.value
+            inner = vpoly(arg, f)
+            if inner == P.atom("MAXI") - P.atom("MINI"):
+                return P.atom("EXTENT")
+            if inner.atoms() and inner.atoms() <= {"MINI", "MAXI"}:
+                return P.atom(f"MAX[{inner}]")            # largest component of another box vector
+        return None
+    return f
+
+
+def _subst_atom(poly, atom, val):
+    out = P.const(0)
+    for mono, c in poly.t.items():
+        term = P.const(c)
+        for a in mono:
+            term = term * (P.const(val) if a == atom else P.atom(a))
+        out = out + term
+    return out
 
 
 def n1_normalize(ctx):
     fn = ctx.repo.func(TR, "normalize")
     site = ctx.site(TR, fn)
-    b = sym.Bindings(fn)
-    mesh = au.params(fn)[0]
-    from .. import decide
-    switch = au.params(fn)[1] if len(au.params(fn)) > 1 else None
-    try:
-        names, rows = decide.table(fn.body, lambda e: switch if isinstance(e, ast.Name) and e.id == switch else None)
-    except decide.Unknown:
-        names, rows = [], []
-    if names != [switch] or any(len(taken) != 1 for _, taken in rows):
-        ctx.fail("C06-N1", site, "normalize() is no longer split on center_at_zero", "")
+    params = au.params(fn)
+    if len(params) < 2:
+        ctx.undecided("C06-N1", site, "normalize() without (mesh, center_at_zero) parameters")
         return
-
-    def parse(path):
-        for st in path.stmts:
-            if isinstance(st, ast.Return) and isinstance(st.value, ast.Call) and au.call_tail(st.value) == "scale":
-                sc = st.value
-                inner = sc.args[0] if sc.args else None
-                if isinstance(inner, ast.Call) and au.call_tail(inner) == "translate" and len(inner.args) == 2 and len(sc.args) == 2 \
-                        and not sc.keywords:
-                    return au.src(inner.args[0]), au.src(b.resolve(inner.args[1], at=st)), au.src(b.resolve(sc.args[1], at=st))
-        return None
-    by = {env[switch]: parse(taken[0]) for env, taken in rows}
-    c, a = by.get(True), by.get(False)
-    span = f"1 / np.max(AABB.of_mesh({mesh}).span)"
-    want_c = (mesh, f"-AABB.of_mesh({mesh}).center", f"2 * ({span})")
-    want_a = (mesh, f"-AABB.of_mesh({mesh}).mini", span)
-    norm = lambda t: tuple(x.replace("(", "").replace(")", "").replace(" ", "") for x in t) if t else None
-    ctx.check(norm(c) == norm(want_c), "C06-N1", site, f"normalize(center_at_zero=True) applies translate/scale with {c}",
-              "documented: centred at the origin with largest extent 2, i.e. translate(-center) then scale(2 / max span)")
-    ctx.check(norm(a) == norm(want_a), "C06-N1", site, f"normalize(center_at_zero=False) applies translate/scale with {a}",
-              "documented: anchored at the origin with largest extent 1, i.e. translate(-mini) then scale(1 / max span)")
-
-
-def f1_transform_formulas(ctx):
-    repo = ctx.repo
-    P = sym.Poly
-
-    def stored(fn):
-        mesh = au.params(fn)[0]
-        b = sym.Bindings(fn)
-        for st in au.stmts(fn.body):
-            if isinstance(st, ast.Assign) and isinstance(st.targets[0], ast.Subscript) and au.src(st.targets[0].value) == f"{mesh}.vertices":
-                i = au.src(st.targets[0].slice)
-                return st, b.resolve(st.value, at=st, keep=tuple(au.params(fn)) + (i,)), mesh, i
-        return None, None, mesh, None
-    # translate: P + tr
-    fn = repo.func(TR, "translate")
-    st, v, mesh, i = stored(fn)
-    tr = au.params(fn)[1]
-    ok = False
-    if v is not None:
-        p = sym.to_poly(v, atom_of=lambda e: "P" if au.src(e) == f"{mesh}.vertices[{i}]" else None)
-        ok = p == P.atom("P") + P.atom(tr)
-    ctx.check(ok, "C06-F1", ctx.site(TR, fn), "translate does not store P + tr", "translate(t) then translate(-t) must restore the coordinates",
-              note="P + t")
-    # scale: O + f*(P - O)
-    fn = repo.func(TR, "scale")
-    st, v, mesh, i = stored(fn)
-    f, o = au.params(fn)[1:3]
-    ok = False
-    if v is not None:
-        p = sym.to_poly(v, atom_of=lambda e: "P" if au.src(e) == f"{mesh}.vertices[{i}]" else None)
-        ok = p == P.atom(o) + P.atom(f) * (P.atom("P") - P.atom(o))
-    ctx.check(ok, "C06-F1", ctx.site(TR, fn), "scale does not store O + factor * (P - O)", "scaling about O must fix O and scale offsets by the factor",
-              note="O + f (P - O)")
-    # rotate: O + R(P - O)
-    fn = repo.func(TR, "rotate")
-    st, v, mesh, i = stored(fn)
-    o = au.params(fn)[2]
-    ok = False
-    if isinstance(v, ast.BinOp) and isinstance(v.op, ast.Add):
-        sides = [v.left, v.right]
-        call = next((x for x in sides if isinstance(x, ast.Call) and au.call_tail(x) == "apply"), None)
-        other = next((x for x in sides if x is not call), None)
-        if call is not None and other is not None and au.src(other) == o and len(call.args) == 1:
-            p = sym.to_poly(call.args[0], atom_of=lambda e: "P" if au.src(e) == f"{mesh}.vertices[{i}]" else None)
-            ok = p == P.atom("P") - P.atom(o)
-    ctx.check(ok, "C06-F1", ctx.site(TR, fn), "rotate does not store O + R(P - O)", "rotating about O must fix O; rotate(R) then rotate(R^-1) must restore the coordinates",
-              note="O + R(P - O)")
-    # scale_xyz: O + Vec(fx*(P.x - O.x), fy*(P.y - O.y), fz*(P.z - O.z))
-    fn = repo.func(TR, "scale_xyz")
-    st, v, mesh, i = stored(fn)
-    ps = au.params(fn)
-    fx, fy, fz, o = ps[1:5]
-    ok = False
-    if isinstance(v, ast.BinOp) and isinstance(v.op, ast.Add):
-        sides = [v.left, v.right]
-        vec = next((x for x in sides if isinstance(x, ast.Call) and au.call_tail(x) == "Vec" and len(x.args) == 3), None)
-        other = next((x for x in sides if x is not vec), None)
-        if vec is not None and au.src(other) == o:
-            good = 0
-            for comp, fac, arg in zip("xyz", (fx, fy, fz), vec.args):
-                amap = {f"{mesh}.vertices[{i}].{comp}": "P", f"{o}.{comp}": "O"}
-                p = sym.to_poly(arg, atom_of=lambda e, _a=amap: _a.get(au.src(e)))
-                good += p == P.atom(fac) * (P.atom("P") - P.atom("O"))
-            ok = good == 3
-    ctx.check(ok, "C06-F1", ctx.site(TR, fn), "scale_xyz does not store O + (fx (P.x - O.x), fy (P.y - O.y), fz (P.z - O.z))", "",
-              note="axis-wise scaling about O")
+    mesh, switch = params[0], params[1]
+    try:
+        ps = SX(ctx.repo, TR, inline=lambda modname, f, nm: modname.endswith(TR)).run(fn)
+    except (TooComplex, RecursionError) as e:
+        ctx.undecided("C06-N1", site, "normalize(): too many paths to read", str(e))
+        return
+    box = _box_atom(mesh)
+    inv = "1/(EXTENT)"
+    wants = {True: (P.atom(inv) * (P.atom("P") - (P.atom("MINI") + P.atom("MAXI")).scale(Fraction(1, 2)))).scale(2),
+             False: P.atom(inv) * (P.atom("P") - P.atom("MINI"))}
+    doc = {True: "centred at the origin with largest extent 2, i.e. P -> 2 (P - center) / max span",
+           False: "anchored at the origin with largest extent 1, i.e. P -> (P - mini) / max span"}
+    results = {True: [], False: []}
+    for p in ps:
+        if p.end == "raise":
+            continue
+        sw = None
+        if _empty_mesh(p.conds, mesh):
+            continue                         # nothing to move
+        for t, pol in p.conds:
+            if isinstance(t, ast.Name) and t.id == switch:
+                sw = pol
+        if sw is None:
+            results[True].append(("und", "a path does not depend on center_at_zero"))
+            results[False].append(("und", "a path does not depend on center_at_zero"))
+            continue
+        cur = P.atom("P")
+        n_moves = 0
+        for i, v, ev, objs in _moves(p, mesh, inplace=True):
+            pa = _point_atom(mesh, i, objs)
+            poly = vpoly(_unrow(v, mesh, i), lambda e, _pa=pa: (_pa(e) or box(e)))
+            # substitute the position reached so far for P
+            new = P.const(0)
+            for mono, c in poly.t.items():
+                term = P.const(c)
+                for a in mono:
+                    term = term * (cur if a == "P" else P.atom(a))
+                new = new + term
+            cur = new
+            n_moves += 1
+        want = wants[sw]
+        # equalities the path assumes on the data (`if factor == 1: return mesh` inside scale): both maps are compared under them
+        for t, pol in p.conds:
+            if isinstance(t, ast.Compare) and len(t.ops) == 1 and isinstance(t.ops[0], (ast.Eq, ast.NotEq)) and pol == isinstance(t.ops[0], ast.Eq):
+                for x, y in ((t.left, t.comparators[0]), (t.comparators[0], t.left)):
+                    c = au.const(y)
+                    if isinstance(c, (int, float)) and not isinstance(c, bool):
+                        q_ = vpoly(x, box)
+                        if len(q_.t) == 1 and len(list(q_.t)[0]) == 1:
+                            atom, k_ = list(q_.t)[0][0], list(q_.t.values())[0]
+                            val = Fraction(c).limit_denominator(10 ** 9) / k_
+                            cur, want = _subst_atom(cur, atom, val), _subst_atom(want, atom, val)
+        if n_moves == 0:
+            results[sw].append(("und", "no vertex store was read (a transform it calls is not expanded)"))
+        elif cur == want:
+            results[sw].append(("ok", ""))
+        elif all(a in ("P", "MINI", "MAXI", inv) or a.startswith("MAX[") or a.startswith("1/(MAX[") for a in cur.atoms()):
+            # conditions of the path other than the switch / emptiness of the mesh / presence of an origin: the maps were composed under an assumption on the data
+            extra = [au.canon_test(t, pol) for t, pol in p.conds if not (isinstance(t, ast.Name) and t.id == switch) and not _empty_mesh([(t, not pol)], mesh)
+                     and not _empty_mesh([(t, pol)], mesh)]
+            results[sw].append(("und", f"{cur} when {' and '.join(extra)}") if extra else ("bad", str(cur)))
+        else:
+            results[sw].append(("und", str(cur)))
+    for sw in (True, False):
+        rs = results[sw]
+        bad = [r for r in rs if r[0] == "bad"]
+        und = [r for r in rs if r[0] == "und"]
+        if bad:
+            ctx.fail("C06-N1", site, f"normalize(center_at_zero={sw}) applies P -> {bad[0][1]}", "documented: " + doc[sw])
+        elif und or not rs:
+            ctx.undecided("C06-N1", site, f"normalize(center_at_zero={sw}): the composition of the applied maps is not recognised", "; ".join(sorted({r[1] for r in und})))
+        else:
+            ctx.ok("C06-N1", site, doc[sw])
